@@ -144,7 +144,8 @@ theorem loadMod_inv (S : Sem) (P : Sess → Prop) (F : Str → Str → Prop)
     (htree : ∀ s key s' r, P s → treeGet S s key = (s', r) →
       P s' ∧ ∀ tree, r = some tree → F key tree ∧ P { s' with loaded := s'.loaded ++ [key], trees := s'.trees ++ [(key, tree)] })
     (hcyc : ∀ s, P s → P { s with cyc := true })
-    (hpre : ∀ s key tree s' r, P s → F key tree →
+    (hdep : ∀ s key, P s → P { s with depd := s.depd ++ [key] })
+    (hpre : ∀ s key tree s' r, P s → F key tree → key ∈ s.depd →
       ((S.importsOf tree).all (fun d => (List.lookup d s.db).isSome) = true ∨ s.cyc = true) →
       preprocess S s key tree (viewsOf S s.db (S.importsOf tree)) = (s', r) →
       P s' ∧ ∀ table, r = some table → P { s' with db := s'.db ++ [(key, table)] }) :
@@ -179,20 +180,22 @@ theorem loadMod_inv (S : Sem) (P : Sess → Prop) (F : Str → Str → Prop)
               generalize (S.importsOf tree).foldl (loadMod S f) _ = s3 at h4
               split
               · exact h4
-              · by_cases hall : (S.importsOf tree).all (fun d => (List.lookup d s3.db).isSome) = true
+              · have h4' := hdep _ key h4
+                have hkd : key ∈ ({ s3 with depd := s3.depd ++ [key] } : Sess).depd := by simp
+                by_cases hall : (S.importsOf tree).all (fun d => (List.lookup d s3.db).isSome) = true
                 · simp only [hall, ↓reduceIte]
                   split
                   · rename_i s4 heq2
-                    exact (hpre _ _ _ _ _ h4 hF (Or.inl hall) heq2).1
+                    exact (hpre { s3 with depd := s3.depd ++ [key] } key tree _ _ h4' hF hkd (Or.inl hall) heq2).1
                   · rename_i s4 table heq2
-                    exact (hpre _ _ _ _ _ h4 hF (Or.inl hall) heq2).2 table rfl
+                    exact (hpre { s3 with depd := s3.depd ++ [key] } key tree _ _ h4' hF hkd (Or.inl hall) heq2).2 table rfl
                 · simp only [hall, Bool.false_eq_true, ↓reduceIte]
-                  have h5 := hcyc _ h4
+                  have h5 := hcyc _ h4'
                   split
                   · rename_i s4 heq2
-                    exact (hpre _ _ _ _ _ h5 hF (Or.inr rfl) heq2).1
+                    exact (hpre { s3 with depd := s3.depd ++ [key], cyc := true } key tree _ _ h5 hF hkd (Or.inr rfl) heq2).1
                   · rename_i s4 table heq2
-                    exact (hpre _ _ _ _ _ h5 hF (Or.inr rfl) heq2).2 table rfl
+                    exact (hpre { s3 with depd := s3.depd ++ [key], cyc := true } key tree _ _ h5 hF hkd (Or.inr rfl) heq2).2 table rfl
 
 end Tranp.CacheFS
 
@@ -209,13 +212,19 @@ def KeyOK (k : Str) : Prop := '-' ∉ k ∧ k ≠ parserKey
 structure Hyp (S : Sem) : Prop where
   tree_inj : ∀ g t g' t', S.treeIdent g t = S.treeIdent g' t' → g = g' ∧ t = t'
   tree_nodash : ∀ g t, '-' ∉ S.treeIdent g t
-  parser_nodash : ∀ g, '-' ∉ S.parserIdent g
+  parser_inj : ∀ gp st al g gp' st' al' g', S.parserIdent gp st al g = S.parserIdent gp' st' al' g' → gp = gp' ∧ st = st' ∧ al = al' ∧ g = g'
+  parser_nodash : ∀ gp st al g, '-' ∉ S.parserIdent gp st al g
   hash_inj : ∀ a b, S.hash a = S.hash b → a = b
   identL_inj : ∀ a b, S.identL a = S.identL b → a = b
   identL_nodash : ∀ hs, '-' ∉ S.identL hs
-  valid_parse : ∀ src, S.valid (S.parse src) = true
-  valid_analyse : ∀ k t vs, S.valid (S.analyse k t vs) = true
+  entry_inj : ∀ p h p' h', S.entry p h = S.entry p' h' → p = p' ∧ h = h'
+  valid_parse : ∀ pz src, S.valid (S.parse pz src) = true
+  valid_blob : ∀ gp st al g, S.valid (S.parserBlob gp st al g) = true
   prefix_invalid : ∀ d, S.valid d = true → ∀ k, k < d.length → S.valid (d.take k) = false
+  /-- C14 (`C14.rt`) composed with the JSON round trip: a stored symbol table is restored as it was -/
+  dec_enc : ∀ t, S.decTab (S.encTab t) = some t
+  /-- C05.truncate + "the decoder rejects unbalanced text", for symbol payloads -/
+  dec_prefix : ∀ t k, k < (S.encTab t).length → S.decTab ((S.encTab t).take k) = none
 
 theorem prefix_valid_eq {S : Sem} (H : Hyp S) {d full : Str} (hp : d <+: full) (hf : S.valid full = true) (hd : S.valid d = true) :
     d = full := by
@@ -231,14 +240,35 @@ theorem prefix_valid_eq {S : Sem} (H : Hyp S) {d full : Str} (hp : d <+: full) (
       exact List.eq_nil_of_length_eq_zero (by omega)
     simp [this]
 
+theorem prefix_dec_eq {S : Sem} (H : Hyp S) {d t0 t : Str} (hp : d <+: S.encTab t0) (hd : S.decTab d = some t) : t = t0 := by
+  by_cases hl : d.length < (S.encTab t0).length
+  · have : d = (S.encTab t0).take d.length := by
+      obtain ⟨r, hr⟩ := hp
+      rw [← hr]; simp
+    rw [this, H.dec_prefix t0 d.length hl] at hd
+    cases hd
+  · obtain ⟨r, hr⟩ := hp
+    have : r = [] := by
+      have := congrArg List.length hr
+      simp only [List.length_append] at this
+      exact List.eq_nil_of_length_eq_zero (by omega)
+    subst this
+    simp only [List.append_nil] at hr
+    rw [hr, H.dec_enc] at hd
+    exact (Option.some.inj hd).symm
+
 /-- The tree cache is coherent: a file named by (grammar mtime, source mtime) of a module whose source carries exactly that
     mtime holds (a prefix of) the encoding of the fresh parse; mtimes named in the cache are older than the clock. -/
 structure TInv (S : Sem) (w : World) : Prop where
   keys : ∀ k f, w.srcs.get? k = some f → KeyOK k
   fresh : ∀ k f, w.srcs.get? k = some f → f.mtime < w.clock
+  gfresh : w.grammarMtime < w.clock
   tree : ∀ k g t f, KeyOK k → w.cache.get? (treePath S k g t) = some f →
-    t < w.clock ∧ ∃ full, f.data <+: full ∧ S.valid full = true ∧
-      (∀ sf, w.srcs.get? k = some sf → sf.mtime = t → g = w.grammarMtime → full = S.parse sf.data)
+    t < w.clock ∧ g < w.clock ∧ ∃ full, f.data <+: full ∧ S.valid full = true ∧
+      (∀ sf, w.srcs.get? k = some sf → sf.mtime = t → g = w.grammarMtime → full = S.parse (w.parserNow S) sf.data)
+  /-- parser-cache coherence: the file named by (grammar path, start, algorithm, grammar mtime) holds (a prefix of) the
+      pickle of the parser built from exactly those -/
+  parser : ∀ gp st al g f, w.cache.get? (parserPath S gp st al g) = some f → f.data <+: S.parserBlob gp st al g
 
 theorem treePath_inj {S : Sem} (H : Hyp S) {k k' : Str} {g t g' t' : Nat} (h : treePath S k g t = treePath S k' g' t') :
     k = k' ∧ g = g' ∧ t = t' := by
@@ -249,58 +279,100 @@ theorem treePath_ne_symPath {S : Sem} (H : Hyp S) {k k' : Str} {i : List Str} {g
     treePath S k g t ≠ symPath k' (S.identL i) :=
   cachePath_ne_symPath hk.1 (H.tree_nodash g t) (H.identL_nodash i) jsonExt_nodash
 
-theorem treePath_ne_parserPath {S : Sem} (H : Hyp S) {k : Str} {g t g' : Nat} (hk : KeyOK k) :
-    treePath S k g t ≠ parserPath S g' := by
+theorem treePath_ne_parserPath {S : Sem} (H : Hyp S) {k gp st al : Str} {g t g' : Nat} (hk : KeyOK k) :
+    treePath S k g t ≠ parserPath S gp st al g' := by
   intro h
-  have := dash_split (nodash_append (H.tree_nodash g t) jsonExt_nodash) (nodash_append (H.parser_nodash g') binExt_nodash) h
+  have := dash_split (nodash_append (H.tree_nodash g t) jsonExt_nodash) (nodash_append (H.parser_nodash gp st al g') binExt_nodash) h
   exact hk.2 this.1
 
+theorem parserPath_inj {S : Sem} (H : Hyp S) {gp st al gp' st' al' : Str} {g g' : Nat}
+    (h : parserPath S gp st al g = parserPath S gp' st' al' g') : gp = gp' ∧ st = st' ∧ al = al' ∧ g = g' :=
+  H.parser_inj _ _ _ _ _ _ _ _ (cachePath_inj (H.parser_nodash _ _ _ _) (H.parser_nodash _ _ _ _) binExt_nodash h).2
+
+theorem parserKey_nodash : '-' ∉ parserKey := by decide
+
+theorem parserPath_ne_symPath {S : Sem} (H : Hyp S) {gp st al k ident : Str} {g : Nat} (hi : '-' ∉ ident) :
+    parserPath S gp st al g ≠ symPath k ident :=
+  cachePath_ne_symPath parserKey_nodash (H.parser_nodash _ _ _ _) hi binExt_nodash
+
 theorem TInv.erase {S : Sem} {w : World} (h : TInv S w) (p : Str) : TInv S { w with cache := w.cache.erase p } := by
-  refine ⟨h.keys, h.fresh, ?_⟩
-  intro k g t f hk hget
-  simp only [Dir.get?_erase] at hget
-  split at hget
-  · simp at hget
-  · exact h.tree k g t f hk hget
+  refine ⟨h.keys, h.fresh, h.gfresh, ?_, ?_⟩
+  · intro k g t f hk hget
+    simp only [Dir.get?_erase] at hget
+    split at hget
+    · simp at hget
+    · exact h.tree k g t f hk hget
+  · intro gp st al g f hget
+    simp only [Dir.get?_erase] at hget
+    split at hget
+    · simp at hget
+    · exact h.parser gp st al g f hget
 
 theorem TInv.eraseAll {S : Sem} {w : World} (h : TInv S w) (ps : List Str) : TInv S { w with cache := ps.foldl Dir.erase w.cache } := by
   induction ps generalizing w with
   | nil => exact h
   | cons p ps ih => exact ih (h.erase p)
 
-/-- writing a file whose name is not the tree file of any module key -/
+/-- writing a file whose name is neither the tree file of a module key nor a parser file -/
 theorem TInv.put_other {S : Sem} {w : World} (h : TInv S w) (p : Str) (f : File)
-    (hp : ∀ k g t, KeyOK k → treePath S k g t ≠ p) :
+    (hp : ∀ k g t, KeyOK k → treePath S k g t ≠ p) (hq : ∀ gp st al g, parserPath S gp st al g ≠ p) :
     TInv S { w with cache := w.cache.put p f, clock := w.clock + 1 } := by
-  refine ⟨h.keys, fun k f hf => Nat.lt_succ_of_lt (h.fresh k f hf), ?_⟩
-  intro k g t f' hk hget
-  simp only at hget
-  rw [Dir.get?_put_ne _ _ _ _ (hp k g t hk)] at hget
-  obtain ⟨h1, h2⟩ := h.tree k g t f' hk hget
-  exact ⟨Nat.lt_succ_of_lt h1, h2⟩
+  refine ⟨h.keys, fun k f hf => Nat.lt_succ_of_lt (h.fresh k f hf), Nat.lt_succ_of_lt h.gfresh, ?_, ?_⟩
+  · intro k g t f' hk hget
+    simp only at hget
+    rw [Dir.get?_put_ne _ _ _ _ (hp k g t hk)] at hget
+    obtain ⟨h1, h2, h3⟩ := h.tree k g t f' hk hget
+    exact ⟨Nat.lt_succ_of_lt h1, Nat.lt_succ_of_lt h2, h3⟩
+  · intro gp st al g f' hget
+    simp only at hget
+    rw [Dir.get?_put_ne _ _ _ _ (hq gp st al g)] at hget
+    exact h.parser gp st al g f' hget
+
+/-- writing the pickle of the parser built from the current configuration -/
+theorem TInv.put_parser {S : Sem} (H : Hyp S) {w : World} (h : TInv S w) (gp st al : Str) (g m : Nat) :
+    TInv S { w with cache := w.cache.put (parserPath S gp st al g) ⟨S.parserBlob gp st al g, m⟩, clock := w.clock + 1 } := by
+  refine ⟨h.keys, fun k f hf => Nat.lt_succ_of_lt (h.fresh k f hf), Nat.lt_succ_of_lt h.gfresh, ?_, ?_⟩
+  · intro k g' t f' hk hget
+    simp only at hget
+    rw [Dir.get?_put_ne _ _ _ _ (treePath_ne_parserPath H hk)] at hget
+    obtain ⟨h1, h2, h3⟩ := h.tree k g' t f' hk hget
+    exact ⟨Nat.lt_succ_of_lt h1, Nat.lt_succ_of_lt h2, h3⟩
+  · intro gp' st' al' g' f' hget
+    simp only at hget
+    by_cases hp : parserPath S gp' st' al' g' = parserPath S gp st al g
+    · obtain ⟨rfl, rfl, rfl, rfl⟩ := parserPath_inj H hp
+      rw [Dir.get?_put_eq] at hget; cases hget
+      exact List.prefix_refl _
+    · rw [Dir.get?_put_ne _ _ _ _ hp] at hget
+      exact h.parser gp' st' al' g' f' hget
 
 /-- writing the tree file of a module from a fresh parse of its current source -/
 theorem TInv.put_tree {S : Sem} (H : Hyp S) {w : World} (h : TInv S w) (k : Str) (sf : File) (hsf : w.srcs.get? k = some sf) (m : Nat) :
-    TInv S { w with cache := w.cache.put (treePath S k w.grammarMtime sf.mtime) ⟨S.parse sf.data, m⟩, clock := w.clock + 1 } := by
-  refine ⟨h.keys, fun k f hf => Nat.lt_succ_of_lt (h.fresh k f hf), ?_⟩
-  intro k' g t f' hk hget
-  simp only at hget
-  by_cases hp : treePath S k' g t = treePath S k w.grammarMtime sf.mtime
-  · obtain ⟨rfl, rfl, rfl⟩ := treePath_inj H hp
-    rw [Dir.get?_put_eq] at hget
-    cases hget
-    refine ⟨Nat.lt_succ_of_lt (h.fresh _ _ hsf), S.parse sf.data, List.prefix_refl _, H.valid_parse _, ?_⟩
-    intro sf' hsf' _ _
-    simp only at hsf'
-    rw [hsf] at hsf'; cases hsf'; rfl
-  · rw [Dir.get?_put_ne _ _ _ _ hp] at hget
-    obtain ⟨h1, h2⟩ := h.tree k' g t f' hk hget
-    exact ⟨Nat.lt_succ_of_lt h1, h2⟩
+    TInv S { w with cache := w.cache.put (treePath S k w.grammarMtime sf.mtime) ⟨S.parse (w.parserNow S) sf.data, m⟩, clock := w.clock + 1 } := by
+  have hk0 : KeyOK k := h.keys k sf hsf
+  refine ⟨h.keys, fun k f hf => Nat.lt_succ_of_lt (h.fresh k f hf), Nat.lt_succ_of_lt h.gfresh, ?_, ?_⟩
+  · intro k' g t f' hk hget
+    simp only at hget
+    by_cases hp : treePath S k' g t = treePath S k w.grammarMtime sf.mtime
+    · obtain ⟨rfl, rfl, rfl⟩ := treePath_inj H hp
+      rw [Dir.get?_put_eq] at hget
+      cases hget
+      refine ⟨Nat.lt_succ_of_lt (h.fresh _ _ hsf), Nat.lt_succ_of_lt h.gfresh, S.parse (w.parserNow S) sf.data, List.prefix_refl _, H.valid_parse _ _, ?_⟩
+      intro sf' hsf' _ _
+      simp only at hsf'
+      rw [hsf] at hsf'; cases hsf'; rfl
+    · rw [Dir.get?_put_ne _ _ _ _ hp] at hget
+      obtain ⟨h1, h2, h3⟩ := h.tree k' g t f' hk hget
+      exact ⟨Nat.lt_succ_of_lt h1, Nat.lt_succ_of_lt h2, h3⟩
+  · intro gp st al g f' hget
+    simp only at hget
+    rw [Dir.get?_put_ne _ _ _ _ (fun e => treePath_ne_parserPath H hk0 e.symm)] at hget
+    exact h.parser gp st al g f' hget
 
 /-- an edit: new content, fresh mtime -/
 theorem TInv.edit {S : Sem} {w : World} (h : TInv S w) (k src : Str) (hk : KeyOK k) :
     TInv S { w with srcs := w.srcs.put k ⟨src, w.clock⟩, clock := w.clock + 1 } := by
-  refine ⟨?_, ?_, ?_⟩
+  refine ⟨?_, ?_, Nat.lt_succ_of_lt h.gfresh, ?_, h.parser⟩
   · intro k' f hf
     simp only at hf
     by_cases hkk : k' = k
@@ -312,8 +384,8 @@ theorem TInv.edit {S : Sem} {w : World} (h : TInv S w) (k src : Str) (hk : KeyOK
     · subst hkk; rw [Dir.get?_put_eq] at hf; cases hf; simp
     · rw [Dir.get?_put_ne _ _ _ _ hkk] at hf; exact Nat.lt_succ_of_lt (h.fresh k' f hf)
   · intro k' g t f hk' hget
-    obtain ⟨h1, full, h2, h3, h4⟩ := h.tree k' g t f hk' hget
-    refine ⟨Nat.lt_succ_of_lt h1, full, h2, h3, ?_⟩
+    obtain ⟨h1, h1', full, h2, h3, h4⟩ := h.tree k' g t f hk' hget
+    refine ⟨Nat.lt_succ_of_lt h1, Nat.lt_succ_of_lt h1', full, h2, h3, ?_⟩
     intro sf hsf hmt hg
     simp only at hsf hg
     by_cases hkk : k' = k
@@ -321,19 +393,38 @@ theorem TInv.edit {S : Sem} {w : World} (h : TInv S w) (k src : Str) (hk : KeyOK
       simp only at hmt; omega
     · rw [Dir.get?_put_ne _ _ _ _ hkk] at hsf; exact h4 sf hsf hmt hg
 
+/-- another grammar file / the grammar file is rewritten: fresh grammar mtime -/
+theorem TInv.grammar {S : Sem} {w : World} (h : TInv S w) (path : Str) :
+    TInv S { w with grammar := path, grammarMtime := w.clock, clock := w.clock + 1 } := by
+  refine ⟨h.keys, fun k f hf => Nat.lt_succ_of_lt (h.fresh k f hf), Nat.lt_succ_self _, ?_, h.parser⟩
+  intro k g t f hk hget
+  obtain ⟨h1, h1', full, h2, h3, _⟩ := h.tree k g t f hk hget
+  refine ⟨Nat.lt_succ_of_lt h1, Nat.lt_succ_of_lt h1', full, h2, h3, ?_⟩
+  intro sf _ _ hg
+  simp only at hg
+  omega
+
 /-- an interrupted write: the file keeps a proper prefix -/
 theorem TInv.trunc {S : Sem} {w : World} (h : TInv S w) (p : Str) (f : File) (hf : w.cache.get? p = some f) (k : Nat) :
     TInv S { w with cache := w.cache.put p (truncFile f k) } := by
-  refine ⟨h.keys, h.fresh, ?_⟩
-  intro k' g t f' hk hget
-  simp only at hget
-  by_cases hp : treePath S k' g t = p
-  · subst hp
-    rw [Dir.get?_put_eq] at hget; cases hget
-    obtain ⟨h1, full, h2, h3⟩ := h.tree k' g t f hk hf
-    exact ⟨h1, full, List.IsPrefix.trans (List.take_prefix _ _) h2, h3⟩
-  · rw [Dir.get?_put_ne _ _ _ _ hp] at hget
-    exact h.tree k' g t f' hk hget
+  refine ⟨h.keys, h.fresh, h.gfresh, ?_, ?_⟩
+  · intro k' g t f' hk hget
+    simp only at hget
+    by_cases hp : treePath S k' g t = p
+    · subst hp
+      rw [Dir.get?_put_eq] at hget; cases hget
+      obtain ⟨h1, h1', full, h2, h3⟩ := h.tree k' g t f hk hf
+      exact ⟨h1, h1', full, List.IsPrefix.trans (List.take_prefix _ _) h2, h3⟩
+    · rw [Dir.get?_put_ne _ _ _ _ hp] at hget
+      exact h.tree k' g t f' hk hget
+  · intro gp st al g f' hget
+    simp only at hget
+    by_cases hp : parserPath S gp st al g = p
+    · subst hp
+      rw [Dir.get?_put_eq] at hget; cases hget
+      exact List.IsPrefix.trans (List.take_prefix _ _) (h.parser gp st al g f hf)
+    · rw [Dir.get?_put_ne _ _ _ _ hp] at hget
+      exact h.parser gp st al g f' hget
 
 end Tranp.CacheFS
 
@@ -351,37 +442,51 @@ theorem Sess.evict_eq (s : Sess) (ps : List Str) :
     rw [this, ih]
     simp [Sess.ev, List.append_assoc]
 
-/-- session-level tree invariant: coherent world, sources and grammar as at the start of the run, every tree of the session is
-    the fresh parse of its module's source -/
-def TS (S : Sem) (w0 : World) (s : Sess) : Prop :=
-  TInv S s.w ∧ s.w.srcs = w0.srcs ∧ s.w.grammarMtime = w0.grammarMtime ∧
-    (∀ k t, (k, t) ∈ s.trees → ∃ sf, w0.srcs.get? k = some sf ∧ t = S.parse sf.data) ∧
-    (∀ k i, (k, i) ∈ s.ids → '-' ∉ i)
+def IdsNoDash (ids : List (Str × Str)) : Prop := ∀ k i, (k, i) ∈ ids → '-' ∉ i
 
-theorem TS.fail {S : Sem} {w0 : World} {s : Sess} (h : TS S w0 s) (e : Err) : TS S w0 (s.fail e) := h
-theorem TS.ev {S : Sem} {w0 : World} {s : Sess} (h : TS S w0 s) (k : Char) (p : Str) : TS S w0 (s.ev k p) := h
+/-- session-level tree invariant: coherent world; sources, grammar and parser setting as at the start of the run; the parser
+    of the process is the one built from the current setting; every tree of the session is the fresh parse of its module's
+    source; cached identities are dash-free -/
+structure TS (S : Sem) (w0 : World) (s : Sess) : Prop where
+  inv : TInv S s.w
+  srcs : s.w.srcs = w0.srcs
+  gm : s.w.grammarMtime = w0.grammarMtime
+  cfg : s.w.grammar = w0.grammar ∧ s.w.start = w0.start ∧ s.w.algo = w0.algo
+  parser : ∀ pz, s.parser = some pz → pz = w0.parserNow S
+  trees : ∀ k t, (k, t) ∈ s.trees → ∃ sf, w0.srcs.get? k = some sf ∧ t = S.parse (w0.parserNow S) sf.data
+  ids : IdsNoDash s.ids
 
-theorem TS.mkdirs {S : Sem} {w0 : World} {s : Sess} (h : TS S w0 s) (d : Str) : TS S w0 { s with w := s.w.mkdirs d } := by
-  obtain ⟨h1, h2, h3, h4⟩ := h
-  exact ⟨⟨h1.keys, h1.fresh, h1.tree⟩, h2, h3, h4⟩
+theorem TS.parserNow_eq {S : Sem} {w0 : World} {s : Sess} (h : TS S w0 s) : s.w.parserNow S = w0.parserNow S := by
+  unfold World.parserNow
+  rw [h.cfg.1, h.cfg.2.1, h.cfg.2.2, h.gm]
+
+theorem TS.fail {S : Sem} {w0 : World} {s : Sess} (h : TS S w0 s) (e : Err) : TS S w0 (s.fail e) :=
+  ⟨h.inv, h.srcs, h.gm, h.cfg, h.parser, h.trees, h.ids⟩
+theorem TS.ev {S : Sem} {w0 : World} {s : Sess} (h : TS S w0 s) (k : Char) (p : Str) : TS S w0 (s.ev k p) :=
+  ⟨h.inv, h.srcs, h.gm, h.cfg, h.parser, h.trees, h.ids⟩
+
+theorem TS.mkdirs {S : Sem} {w0 : World} {s : Sess} (h : TS S w0 s) (d : Str) : TS S w0 { s with w := s.w.mkdirs d } :=
+  ⟨⟨h.inv.keys, h.inv.fresh, h.inv.gfresh, h.inv.tree, h.inv.parser⟩, h.srcs, h.gm, h.cfg, h.parser, h.trees, h.ids⟩
 
 theorem TS.evict {S : Sem} {w0 : World} {s : Sess} (h : TS S w0 s) (ps : List Str) : TS S w0 (s.evict ps) := by
   rw [Sess.evict_eq]
-  obtain ⟨h1, h2, h3, h4⟩ := h
-  exact ⟨h1.eraseAll ps, h2, h3, h4⟩
+  exact ⟨h.inv.eraseAll ps, h.srcs, h.gm, h.cfg, h.parser, h.trees, h.ids⟩
+
+/-- a world that differs from the session's only in cache/clock/dirs -/
+def SameCfg (w w0 : World) : Prop :=
+  w.srcs = w0.srcs ∧ w.grammarMtime = w0.grammarMtime ∧ w.grammar = w0.grammar ∧ w.start = w0.start ∧ w.algo = w0.algo
 
 theorem TS.write {S : Sem} {w0 : World} {s : Sess} (h : TS S w0 s) (dir p data : Str)
-    (hput : ∀ w m, TInv S w → w.srcs = w0.srcs → w.grammarMtime = w0.grammarMtime →
-      TInv S { w with cache := w.cache.put p ⟨data, m⟩, clock := w.clock + 1 }) : TS S w0 (s.write dir p data) := by
+    (hput : ∀ w m, TInv S w → SameCfg w w0 → TInv S { w with cache := w.cache.put p ⟨data, m⟩, clock := w.clock + 1 }) :
+    TS S w0 (s.write dir p data) := by
   unfold Sess.write
   dsimp only
   split
-  · obtain ⟨h1, h2, h3, h4⟩ := h
-    exact ⟨hput _ _ h1 h2 h3, h2, h3, h4⟩
-  · exact h
+  · exact ⟨hput _ _ h.inv ⟨h.srcs, h.gm, h.cfg⟩, h.srcs, h.gm, h.cfg, h.parser, h.trees, h.ids⟩
+  · exact ⟨h.inv, h.srcs, h.gm, h.cfg, h.parser, h.trees, h.ids⟩
 
 theorem cacheGet_TS {S : Sem} {w0 : World} {s : Sess} (h : TS S w0 s) (dir key ident ext fresh : Str) (bin : Bool)
-    (hput : ∀ w m, TInv S w → w.srcs = w0.srcs → w.grammarMtime = w0.grammarMtime →
+    (hput : ∀ w m, TInv S w → SameCfg w w0 →
       TInv S { w with cache := w.cache.put (cachePath key ident ext) ⟨fresh, m⟩, clock := w.clock + 1 }) :
     TS S w0 (cacheGet S s dir key ident ext fresh bin).1 := by
   unfold cacheGet
@@ -390,8 +495,8 @@ theorem cacheGet_TS {S : Sem} {w0 : World} {s : Sess} (h : TS S w0 s) (dir key i
   · dsimp only
     split
     · split
-      · exact h
-      · exact h
+      · exact h.ev _ _
+      · exact (h.ev _ _).fail _
     · exact TS.write (TS.evict (TS.mkdirs h dir) _) _ _ _ hput
 
 /-- what `cacheGet` returns: the fresh value, or the content of a valid file of that name -/
@@ -412,88 +517,107 @@ theorem cacheGet_value {S : Sem} {s : Sess} {dir key ident ext fresh : Str} {bin
       · simp at h
       · left; simpa using h.symm
 
-theorem cacheGet_trees {S : Sem} {s : Sess} {dir key ident ext fresh : Str} {bin : Bool} :
-    (cacheGet S s dir key ident ext fresh bin).1.trees = s.trees ∧ (cacheGet S s dir key ident ext fresh bin).1.db = s.db ∧
-    (cacheGet S s dir key ident ext fresh bin).1.cyc = s.cyc := by
+/-- `cacheGet` touches the world (cache, dirs, clock), the log and the error flag only -/
+theorem cacheGet_rest {S : Sem} {s : Sess} {dir key ident ext fresh : Str} {bin : Bool} :
+    (cacheGet S s dir key ident ext fresh bin).1.db = s.db ∧ (cacheGet S s dir key ident ext fresh bin).1.cyc = s.cyc ∧
+    (cacheGet S s dir key ident ext fresh bin).1.ids = s.ids ∧ (cacheGet S s dir key ident ext fresh bin).1.w.srcs = s.w.srcs ∧
+    (cacheGet S s dir key ident ext fresh bin).1.trees = s.trees ∧ (cacheGet S s dir key ident ext fresh bin).1.parser = s.parser ∧
+    (cacheGet S s dir key ident ext fresh bin).1.loaded = s.loaded ∧ (cacheGet S s dir key ident ext fresh bin).1.out = s.out ∧
+    (cacheGet S s dir key ident ext fresh bin).1.depd = s.depd := by
   unfold cacheGet
   split
   · simp
   · dsimp only
     split
     · split <;> simp [Sess.ev, Sess.fail]
-    · simp only [Sess.write, Sess.evict_eq, Sess.ev, Sess.fail]
+    · simp only [Sess.write, Sess.evict_eq, Sess.ev, Sess.fail, World.mkdirs]
       split <;> simp
 
-end Tranp.CacheFS
-
-namespace Tranp.CacheFS
-open Tranp
-
 /-- the fact `treeGet` establishes about the tree it returns -/
-def FreshTree (S : Sem) (w0 : World) (key tree : Str) : Prop := ∃ sf, w0.srcs.get? key = some sf ∧ tree = S.parse sf.data
+def FreshTree (S : Sem) (w0 : World) (key tree : Str) : Prop :=
+  ∃ sf, w0.srcs.get? key = some sf ∧ tree = S.parse (w0.parserNow S) sf.data
 
 theorem TS.addTree {S : Sem} {w0 : World} {s : Sess} (h : TS S w0 s) {key tree : Str} (hF : FreshTree S w0 key tree) :
     TS S w0 { s with loaded := s.loaded ++ [key], trees := s.trees ++ [(key, tree)] } := by
-  obtain ⟨h1, h2, h3, h4, h5⟩ := h
-  refine ⟨h1, h2, h3, ?_, h5⟩
+  refine ⟨h.inv, h.srcs, h.gm, h.cfg, h.parser, ?_, h.ids⟩
   intro k t hkt
   simp only [List.mem_append, List.mem_singleton, Prod.mk.injEq] at hkt
   rcases hkt with hkt | ⟨rfl, rfl⟩
-  · exact h4 k t hkt
+  · exact h.trees k t hkt
   · exact hF
 
-theorem parserStep_TS {S : Sem} (H : Hyp S) {w0 : World} {s : Sess} (h : TS S w0 s) :
-    TS S w0 (if s.parserUp then s else
-      let (s', r) := cacheGet S s [] parserKey (S.parserIdent s.w.grammarMtime) binExt (S.parserBlob s.w.grammarMtime) true
-      if r.isSome then { s' with parserUp := true } else s') := by
+/-- C05.parser_key at session level: the parser a process obtains — from its memo, from `parser.cache-*.bin` or freshly
+    built — is the one built from the current grammar path, start, algorithm and grammar mtime -/
+theorem parserGet_TS {S : Sem} (H : Hyp S) {w0 : World} {s : Sess} (h : TS S w0 s) :
+    TS S w0 (parserGet S s).1 ∧ ∀ pz, (parserGet S s).2 = some pz → pz = w0.parserNow S := by
+  unfold parserGet
   split
-  · exact h
-  · have := cacheGet_TS (S := S) h [] parserKey (S.parserIdent s.w.grammarMtime) binExt (S.parserBlob s.w.grammarMtime) true
-      (fun w m hw _ _ => hw.put_other _ _ (fun k g t hk => treePath_ne_parserPath H hk))
-    generalize cacheGet S s [] parserKey (S.parserIdent s.w.grammarMtime) binExt (S.parserBlob s.w.grammarMtime) true = res at this
+  · rename_i pz hp
+    exact ⟨h, fun pz' e => by cases e; exact h.parser pz hp⟩
+  · have h1 := cacheGet_TS (S := S) h [] parserKey (S.parserIdent s.w.grammar s.w.start s.w.algo s.w.grammarMtime) binExt (s.w.parserNow S) true
+      (fun w m hw _ => hw.put_parser H _ _ _ _ m)
+    have hv : ∀ v, (cacheGet S s [] parserKey (S.parserIdent s.w.grammar s.w.start s.w.algo s.w.grammarMtime) binExt (s.w.parserNow S) true).2 = some v →
+        v = w0.parserNow S := by
+      intro v hv
+      rcases cacheGet_value hv with rfl | ⟨f, hf, hvalid, rfl⟩
+      · exact h.parserNow_eq
+      · have hp := h.inv.parser _ _ _ _ f hf
+        rw [prefix_valid_eq H hp (H.valid_blob _ _ _ _) hvalid]
+        exact h.parserNow_eq
+    generalize cacheGet S s [] parserKey (S.parserIdent s.w.grammar s.w.start s.w.algo s.w.grammarMtime) binExt (s.w.parserNow S) true = res at h1 hv
     obtain ⟨s', r⟩ := res
-    dsimp only at this ⊢
-    split
-    · exact this
-    · exact this
+    cases r with
+    | none => exact ⟨h1, fun _ e => by cases e⟩
+    | some pz =>
+      dsimp only at h1 hv ⊢
+      have := hv pz rfl
+      exact ⟨⟨h1.inv, h1.srcs, h1.gm, h1.cfg, fun pz' e => by cases e; exact this, h1.trees, h1.ids⟩, fun pz' e => by cases e; exact this⟩
 
 theorem treeGet_TS {S : Sem} (H : Hyp S) {w0 : World} {s : Sess} (h : TS S w0 s) (key : Str) {s' : Sess} {r : Option Str}
     (heq : treeGet S s key = (s', r)) :
     TS S w0 s' ∧ ∀ tree, r = some tree → FreshTree S w0 key tree ∧
       TS S w0 { s' with loaded := s'.loaded ++ [key], trees := s'.trees ++ [(key, tree)] } := by
   unfold treeGet at heq
-  have h1 := parserStep_TS H h
-  dsimp only at heq h1
-  generalize (if s.parserUp then s else
-      match cacheGet S s [] parserKey (S.parserIdent s.w.grammarMtime) binExt (S.parserBlob s.w.grammarMtime) true with
-      | (s', r) => if r.isSome then { s' with parserUp := true } else s') = s1 at heq h1
-  split at heq
-  · cases heq; exact ⟨h1, fun _ h => by simp at h⟩
-  · split at heq
-    · cases heq; exact ⟨h1.fail _, fun _ h => by simp at h⟩
+  obtain ⟨h1, hpz⟩ := parserGet_TS H h
+  generalize parserGet S s = rp at heq h1 hpz
+  obtain ⟨s1, op⟩ := rp
+  cases op with
+  | none => dsimp only at heq; cases heq; exact ⟨h1, fun _ e => by cases e⟩
+  | some pz =>
+    dsimp only at heq h1 hpz
+    have hpz' : pz = w0.parserNow S := hpz pz rfl
+    subst hpz'
+    split at heq
+    · cases heq; exact ⟨h1.fail _, fun _ e => by cases e⟩
     · rename_i src hsrc
-      have hsrc0 : w0.srcs.get? key = some src := by rw [← h1.2.1]; exact hsrc
-      have hk : KeyOK key := h1.1.keys key src hsrc
-      have h2 := cacheGet_TS (S := S) h1 (dirname key) key (S.treeIdent s1.w.grammarMtime src.mtime) jsonExt (S.parse src.data) false
-        (fun w m hw hs hg => by
-          have := hw.put_tree H key src (by rw [hs]; exact hsrc0) m
+      have hsrc0 : w0.srcs.get? key = some src := by rw [← h1.srcs]; exact hsrc
+      have hk : KeyOK key := h1.inv.keys key src hsrc
+      have h2 := cacheGet_TS (S := S) h1 (dirname key) key (S.treeIdent s1.w.grammarMtime src.mtime) jsonExt (S.parse (w0.parserNow S) src.data) false
+        (fun w m hw hc => by
+          have := hw.put_tree H key src (by rw [hc.1]; exact hsrc0) m
+          have e1 : w.parserNow S = w0.parserNow S := by
+            unfold World.parserNow; rw [hc.2.2.1, hc.2.2.2.1, hc.2.2.2.2, hc.2.1]
           have e : treePath S key w.grammarMtime src.mtime = cachePath key (S.treeIdent s1.w.grammarMtime src.mtime) jsonExt := by
-            rw [hg, ← h1.2.2.1]; rfl
-          rw [e] at this
+            rw [hc.2.1, ← h1.gm]; rfl
+          rw [e, e1] at this
           exact this)
       rw [heq] at h2
       refine ⟨h2, ?_⟩
       intro tree hr
       have hF : FreshTree S w0 key tree := by
         refine ⟨src, hsrc0, ?_⟩
-        have hv : (cacheGet S s1 (dirname key) key (S.treeIdent s1.w.grammarMtime src.mtime) jsonExt (S.parse src.data) false).2 = some tree := by
+        have hv : (cacheGet S s1 (dirname key) key (S.treeIdent s1.w.grammarMtime src.mtime) jsonExt (S.parse (w0.parserNow S) src.data) false).2 = some tree := by
           rw [heq]; exact hr
         rcases cacheGet_value hv with rfl | ⟨f, hf, hvalid, rfl⟩
         · rfl
-        · obtain ⟨_, full, hp, hfv, hfull⟩ := h1.1.tree key _ _ f hk hf
-          rw [prefix_valid_eq H hp hfv hvalid]
-          exact hfull src hsrc rfl rfl
+        · obtain ⟨_, _, full, hp, hfv, hfull⟩ := h1.inv.tree key _ _ f hk hf
+          rw [prefix_valid_eq H hp hfv hvalid, hfull src hsrc rfl rfl, h1.parserNow_eq]
       exact ⟨hF, h2.addTree hF⟩
+
+end Tranp.CacheFS
+
+namespace Tranp.CacheFS
+open Tranp
 
 theorem lookup_mem' {α : Type} [BEq α] [LawfulBEq α] {β : Type} {k : α} {v : β} : ∀ {l : List (α × β)}, List.lookup k l = some v → (k, v) ∈ l
   | [], h => by simp [List.lookup] at h
@@ -505,9 +629,6 @@ theorem lookup_mem' {α : Type} [BEq α] [LawfulBEq α] {β : Type} {k : α} {v 
       cases h; subst this; simp
     · exact List.mem_cons_of_mem _ (lookup_mem' h)
 
-/-- the identity functions touch nothing but the identity memo, and every digest they produce or cache is dash-free -/
-def IdsNoDash (ids : List (Str × Str)) : Prop := ∀ k i, (k, i) ∈ ids → '-' ∉ i
-
 theorem IdsNoDash.add {ids : List (Str × Str)} (h : IdsNoDash ids) (k i : Str) (hi : '-' ∉ i) : IdsNoDash (ids ++ [(k, i)]) := by
   intro k' i' hm
   simp only [List.mem_append, List.mem_singleton, Prod.mk.injEq] at hm
@@ -515,102 +636,57 @@ theorem IdsNoDash.add {ids : List (Str × Str)} (h : IdsNoDash ids) (k i : Str) 
   · exact h k' i' hm
   · exact hi
 
-theorem depIdentity_frame {S : Sem} (H : Hyp S) (s : Sess) (d : Str) (hn : IdsNoDash s.ids) :
-    ∃ ids', (depIdentity S s d).1 = { s with ids := ids' } ∧ IdsNoDash ids' ∧ ∀ i, (depIdentity S s d).2 = some i → '-' ∉ i := by
-  unfold depIdentity
+theorem identityCore_nodash {S : Sem} (H : Hyp S) (srcs : Dir) (trees : List (Str × Str)) (depd : List Str) (ids : List (Str × Str))
+    (key : Str) (hn : IdsNoDash ids) :
+    IdsNoDash (identityCore S srcs trees depd ids key).1 ∧ ∀ i, (identityCore S srcs trees depd ids key).2 = some i → '-' ∉ i := by
+  unfold identityCore
   split
   · rename_i i hl
-    exact ⟨s.ids, rfl, hn, fun i' h => by cases h; exact hn d i (lookup_mem' hl)⟩
+    exact ⟨hn, fun i' h => by cases h; exact hn key i (lookup_mem' hl)⟩
   · split
-    · split
-      · exact ⟨_, rfl, hn.add _ _ (H.identL_nodash _), fun i' h => by cases h; exact H.identL_nodash _⟩
-      · exact ⟨s.ids, rfl, hn, fun _ h => by simp at h⟩
-    · exact ⟨s.ids, rfl, hn, fun _ h => by simp at h⟩
+    · exact ⟨hn.add _ _ (H.identL_nodash _), fun i' h => by cases h; exact H.identL_nodash _⟩
+    · exact ⟨hn, fun _ h => by simp at h⟩
 
-theorem depIdentities_frame {S : Sem} (H : Hyp S) (s : Sess) (ds : List Str) (hn : IdsNoDash s.ids) :
-    ∃ ids', (depIdentities S s ds).1 = { s with ids := ids' } ∧ IdsNoDash ids' := by
-  induction ds generalizing s with
-  | nil => exact ⟨s.ids, rfl, hn⟩
-  | cons d ds ih =>
-    unfold depIdentities
-    obtain ⟨i1, h1, hn1, _⟩ := depIdentity_frame H s d hn
-    generalize depIdentity S s d = r at h1
-    obtain ⟨s1, o⟩ := r
-    dsimp only at h1 ⊢
-    subst h1
-    cases o with
-    | none => exact ⟨i1, rfl, hn1⟩
-    | some i =>
-      dsimp only
-      obtain ⟨i2, h2, hn2⟩ := ih { s with ids := i1 } hn1
-      generalize depIdentities S { s with ids := i1 } ds = r2 at h2
-      obtain ⟨s2, o2⟩ := r2
-      dsimp only at h2 ⊢
-      subst h2
-      cases o2 <;> exact ⟨i2, rfl, hn2⟩
-
-theorem identityM_frame {S : Sem} (H : Hyp S) (s : Sess) (key tree : Str) (hn : IdsNoDash s.ids) :
-    ∃ ids', (identityM S s key tree).1 = { s with ids := ids' } ∧ IdsNoDash ids' ∧ ∀ i, (identityM S s key tree).2 = some i → '-' ∉ i := by
-  unfold identityM
-  split
-  · rename_i i hl
-    exact ⟨s.ids, rfl, hn, fun i' h => by cases h; exact hn key i (lookup_mem' hl)⟩
-  · split
-    · exact ⟨s.ids, rfl, hn, fun _ h => by simp at h⟩
-    · obtain ⟨i1, h1, hn1⟩ := depIdentities_frame H s (S.importsOf tree) hn
-      generalize depIdentities S s (S.importsOf tree) = r at h1
-      obtain ⟨s1, o⟩ := r
-      dsimp only at h1 ⊢
-      subst h1
-      cases o with
-      | none => exact ⟨i1, rfl, hn1, fun _ h => by simp at h⟩
-      | some is => exact ⟨_, rfl, hn1.add _ _ (H.identL_nodash _), fun i' h => by cases h; exact H.identL_nodash _⟩
+theorem TS.setIds {S : Sem} {w0 : World} {s : Sess} (h : TS S w0 s) (ids' : List (Str × Str)) (hn : IdsNoDash ids') :
+    TS S w0 { s with ids := ids' } := ⟨h.inv, h.srcs, h.gm, h.cfg, h.parser, h.trees, hn⟩
 
 theorem preprocessWith_TS {S : Sem} (H : Hyp S) {w0 : World} {s : Sess} (h : TS S w0 s) (key tree : Str) (views : List Str)
     (ident : Str) (hident : '-' ∉ ident) {s' : Sess} {r : Option Str} (heq : preprocessWith S s key tree views ident = (s', r)) :
     TS S w0 s' ∧ ∀ table, r = some table → TS S w0 { s' with db := s'.db ++ [(key, table)] } := by
   have aux : ∀ s'', TS S w0 s'' → TS S w0 s'' ∧ ∀ table : Str, r = some table → TS S w0 { s'' with db := s''.db ++ [(key, table)] } :=
-    fun s'' h'' => ⟨h'', fun _ _ => h''⟩
+    fun s'' h'' => ⟨h'', fun _ _ => ⟨h''.inv, h''.srcs, h''.gm, h''.cfg, h''.parser, h''.trees, h''.ids⟩⟩
   unfold preprocessWith at heq
   dsimp only at heq
   split at heq
   · split at heq
     · split at heq
-      · cases heq; exact aux _ h
-      · cases heq; exact aux _ h
+      · cases heq; exact aux _ (h.ev _ _)
+      · cases heq; exact aux _ ((h.ev _ _).fail _)
     · cases heq; exact aux _ h
   · split at heq
     · cases heq; exact aux _ h
     · cases heq
       apply aux
-      exact TS.write (TS.evict h _) _ _ _ (fun w m hw _ _ => hw.put_other _ _ (fun k g t hk =>
-        cachePath_ne_symPath hk.1 (H.tree_nodash g t) hident jsonExt_nodash))
-
-theorem TS.setIds {S : Sem} {w0 : World} {s : Sess} (h : TS S w0 s) (ids' : List (Str × Str)) (hn : IdsNoDash ids') :
-    TS S w0 { s with ids := ids' } := ⟨h.1, h.2.1, h.2.2.1, h.2.2.2.1, hn⟩
+      exact TS.write (TS.evict h _) _ _ _ (fun w m hw _ => hw.put_other _ _
+        (fun k g t hk => cachePath_ne_symPath hk.1 (H.tree_nodash g t) hident jsonExt_nodash)
+        (fun gp st al g => parserPath_ne_symPath H hident))
 
 theorem preprocess_TS {S : Sem} (H : Hyp S) {w0 : World} {s : Sess} (h : TS S w0 s) (key tree : Str) (views : List Str)
     {s' : Sess} {r : Option Str} (heq : preprocess S s key tree views = (s', r)) :
     TS S w0 s' ∧ ∀ table, r = some table → TS S w0 { s' with db := s'.db ++ [(key, table)] } := by
-  unfold preprocess at heq
-  obtain ⟨ids', hf, hn, hd⟩ := identityM_frame H s key tree h.2.2.2.2
-  generalize identityM S s key tree = ri at heq hf hd
-  obtain ⟨s1, o⟩ := ri
-  dsimp only at hf hd heq
-  subst hf
+  unfold preprocess identityM at heq
+  obtain ⟨hn, hd⟩ := identityCore_nodash H s.w.srcs s.trees s.depd s.ids key h.ids
+  generalize identityCore S s.w.srcs s.trees s.depd s.ids key = ri at heq hn hd
+  obtain ⟨ids', o⟩ := ri
+  dsimp only at hn hd heq
   cases o with
   | none =>
     dsimp only at heq
     cases heq
-    exact ⟨h.setIds ids' hn, fun _ hr => by simp at hr⟩
+    exact ⟨(h.setIds ids' hn).fail _, fun _ hr => by simp at hr⟩
   | some ident =>
     dsimp only at heq
     exact preprocessWith_TS H (h.setIds ids' hn) key tree views ident (hd ident rfl) heq
-
-end Tranp.CacheFS
-
-namespace Tranp.CacheFS
-open Tranp
 
 /-! ### runs and histories preserve the tree invariant -/
 
@@ -618,8 +694,9 @@ theorem loadMod_TS {S : Sem} (H : Hyp S) {w0 : World} (f : Nat) (s : Sess) (key 
   loadMod_inv S (TS S w0) (FreshTree S w0)
     (fun _ e hs => hs.fail e)
     (fun _ key _ _ hs heq => treeGet_TS H hs key heq)
-    (fun _ hs => hs)
-    (fun _ key tree _ _ hs _ _ heq => preprocess_TS H hs key tree _ heq)
+    (fun _ hs => ⟨hs.inv, hs.srcs, hs.gm, hs.cfg, hs.parser, hs.trees, hs.ids⟩)
+    (fun _ _ hs => ⟨hs.inv, hs.srcs, hs.gm, hs.cfg, hs.parser, hs.trees, hs.ids⟩)
+    (fun _ key tree _ _ hs _ _ _ heq => preprocess_TS H hs key tree _ heq)
     f s key h
 
 theorem runTargets_TS {S : Sem} (H : Hyp S) {w0 : World} (targets : List Str) (s : Sess) (h : TS S w0 s) :
@@ -635,13 +712,18 @@ theorem runTargets_TS {S : Sem} (H : Hyp S) {w0 : World} (targets : List Str) (s
     split
     · exact h1
     · split
-      · obtain ⟨a, b, c, d⟩ := h1
-        exact ⟨⟨a.keys, a.fresh, a.tree⟩, b, c, d⟩
+      · exact ⟨⟨h1.inv.keys, h1.inv.fresh, h1.inv.gfresh, h1.inv.tree, h1.inv.parser⟩, h1.srcs, h1.gm, h1.cfg, h1.parser, h1.trees, h1.ids⟩
       · exact h1
+
+theorem TS.start {S : Sem} (w : World) (h : TInv S w) : TS S w ({ w := w } : Sess) :=
+  { inv := h, srcs := rfl, gm := rfl, cfg := And.intro rfl (And.intro rfl rfl),
+    parser := fun _ e => by simp at e,
+    trees := fun _ _ hkt => by simp at hkt,
+    ids := fun _ _ hki => by simp at hki }
 
 theorem run_TS {S : Sem} (H : Hyp S) (w : World) (force : Bool) (h : TInv S w) : TS S w (run S w force) := by
   unfold run
-  exact runTargets_TS H _ _ ⟨h, rfl, rfl, fun _ _ hkt => by simp at hkt, fun _ _ hki => by simp at hki⟩
+  exact runTargets_TS H _ _ (TS.start w h)
 
 /-- the ops of a history that create files name module keys -/
 def OpOK : Op → Prop
@@ -651,15 +733,17 @@ def OpOK : Op → Prop
 theorem step_TInv {S : Sem} (H : Hyp S) (w : World) (op : Op) (hop : OpOK op) (h : TInv S w) : TInv S (step S w op) := by
   cases op with
   | edit k src => exact h.edit k src hop
-  | run force => exact (run_TS H w force h).1
-  | clear => exact ⟨h.keys, h.fresh, fun k g t f _ hget => by simp [step, World.clearCache, Dir.get?] at hget⟩
+  | run force => exact (run_TS H w force h).inv
+  | clear => exact ⟨h.keys, h.fresh, h.gfresh, fun k g t f _ hget => by simp [step, World.clearCache, Dir.get?] at hget,
+      fun gp st al g f hget => by simp [step, World.clearCache, Dir.get?] at hget⟩
   | delete p => exact h.erase p
   | trunc p k =>
     simp only [step]
     split
     · rename_i f hf; exact h.trunc p f hf k
     · exact h
-  | enable b => exact ⟨h.keys, h.fresh, h.tree⟩
+  | enable b => exact ⟨h.keys, h.fresh, h.gfresh, h.tree, h.parser⟩
+  | grammar path => exact h.grammar path
 
 theorem exec_TInv {S : Sem} (H : Hyp S) (w : World) (hist : List Op) (hok : ∀ op ∈ hist, OpOK op) (h : TInv S w) :
     TInv S (exec S w hist) := by
@@ -668,11 +752,12 @@ theorem exec_TInv {S : Sem} (H : Hyp S) (w : World) (hist : List Op) (hok : ∀ 
   | cons op hist ih =>
     exact ih (step S w op) (fun o ho => hok o (by simp [ho])) (step_TInv H w op (hok op (by simp)) h)
 
-theorem TInv.init {S : Sem} (w : World) (hc : w.cache = []) (hs : w.srcs = []) : TInv S w := by
-  refine ⟨?_, ?_, ?_⟩
+theorem TInv.init {S : Sem} (w : World) (hc : w.cache = []) (hs : w.srcs = []) (hg : w.grammarMtime < w.clock) : TInv S w := by
+  refine ⟨?_, ?_, hg, ?_, ?_⟩
   · intro k f hf; simp [hs, Dir.get?] at hf
   · intro k f hf; simp [hs, Dir.get?] at hf
   · intro k g t f _ hf; simp [hc, Dir.get?] at hf
+  · intro gp st al g f hf; simp [hc, Dir.get?] at hf
 
 theorem exec_append (S : Sem) (w : World) (a b : List Op) : exec S w (a ++ b) = exec S (exec S w a) b := by
   simp [exec, List.foldl_append]
@@ -682,89 +767,36 @@ end Tranp.CacheFS
 namespace Tranp.CacheFS
 open Tranp
 
-/-! ### the closure-keyed identity and the cache-free symbols, as relations over the sources -/
+/-! ### the cache-free symbols and the closure identity, as relations over the sources -/
 
 mutual
-  /-- `IsId S srcs k i`: `i` is the identity of module `k` — the digest of the identities of its direct imports and of the
-      hash of its own file — computed from the sources alone (exists iff the import closure is finite and acyclic) -/
-  inductive IsId (S : Sem) (srcs : Dir) : Str → Str → Prop
-    | mk {k : Str} {own : File} {is : List Str} (hown : srcs.get? k = some own)
-        (hdeps : IsIds S srcs (S.importsOf (S.parse own.data)) is) : IsId S srcs k (S.identL (is ++ [S.hash own.data]))
-  inductive IsIds (S : Sem) (srcs : Dir) : List Str → List Str → Prop
-    | nil : IsIds S srcs [] []
-    | cons {d i : Str} {ds is : List Str} (hd : IsId S srcs d i) (hds : IsIds S srcs ds is) : IsIds S srcs (d :: ds) (i :: is)
-end
-
-mutual
-  /-- `IsTab S srcs k t`: `t` is the symbol table of module `k` analysed without any cache -/
-  inductive IsTab (S : Sem) (srcs : Dir) : Str → Str → Prop
+  /-- `IsTab S pz srcs k t`: `t` is the symbol table of module `k` analysed without any cache -/
+  inductive IsTab (S : Sem) (pz : Str) (srcs : Dir) : Str → Str → Prop
     | mk {k : Str} {own : File} {vs : List Str} (hown : srcs.get? k = some own)
-        (hdeps : IsViews S srcs (S.importsOf (S.parse own.data)) vs) : IsTab S srcs k (S.analyse k (S.parse own.data) vs)
-  inductive IsViews (S : Sem) (srcs : Dir) : List Str → List Str → Prop
-    | nil : IsViews S srcs [] []
-    | cons {d t : Str} {ds vs : List Str} (hd : IsTab S srcs d t) (hds : IsViews S srcs ds vs) : IsViews S srcs (d :: ds) (S.view t :: vs)
+        (hdeps : IsViews S pz srcs (S.importsOf (S.parse pz own.data)) vs) : IsTab S pz srcs k (S.analyse k (S.parse pz own.data) vs)
+  inductive IsViews (S : Sem) (pz : Str) (srcs : Dir) : List Str → List Str → Prop
+    | nil : IsViews S pz srcs [] []
+    | cons {d t : Str} {ds vs : List Str} (hd : IsTab S pz srcs d t) (hds : IsViews S pz srcs ds vs) : IsViews S pz srcs (d :: ds) (S.view t :: vs)
 end
 
-theorem IsId.inv {S : Sem} {srcs : Dir} {k i : Str} (h : IsId S srcs k i) :
-    ∃ own is, srcs.get? k = some own ∧ IsIds S srcs (S.importsOf (S.parse own.data)) is ∧ i = S.identL (is ++ [S.hash own.data]) := by
+theorem IsTab.inv {S : Sem} {pz : Str} {srcs : Dir} {k t : Str} (h : IsTab S pz srcs k t) :
+    ∃ own vs, srcs.get? k = some own ∧ IsViews S pz srcs (S.importsOf (S.parse pz own.data)) vs ∧ t = S.analyse k (S.parse pz own.data) vs := by
   cases h with
   | mk hown hdeps => exact ⟨_, _, hown, hdeps, rfl⟩
 
-theorem IsTab.inv {S : Sem} {srcs : Dir} {k t : Str} (h : IsTab S srcs k t) :
-    ∃ own vs, srcs.get? k = some own ∧ IsViews S srcs (S.importsOf (S.parse own.data)) vs ∧ t = S.analyse k (S.parse own.data) vs := by
-  cases h with
-  | mk hown hdeps => exact ⟨_, _, hown, hdeps, rfl⟩
-
-theorem IsIds.inv_cons {S : Sem} {srcs : Dir} {d : Str} {ds is : List Str} (h : IsIds S srcs (d :: ds) is) :
-    ∃ i is', is = i :: is' ∧ IsId S srcs d i ∧ IsIds S srcs ds is' := by
+theorem IsViews.inv_cons {S : Sem} {pz : Str} {srcs : Dir} {d : Str} {ds vs : List Str} (h : IsViews S pz srcs (d :: ds) vs) :
+    ∃ t vs', vs = S.view t :: vs' ∧ IsTab S pz srcs d t ∧ IsViews S pz srcs ds vs' := by
   cases h with
   | cons hd hds => exact ⟨_, _, rfl, hd, hds⟩
 
-theorem IsViews.inv_cons {S : Sem} {srcs : Dir} {d : Str} {ds vs : List Str} (h : IsViews S srcs (d :: ds) vs) :
-    ∃ t vs', vs = S.view t :: vs' ∧ IsTab S srcs d t ∧ IsViews S srcs ds vs' := by
-  cases h with
-  | cons hd hds => exact ⟨_, _, rfl, hd, hds⟩
-
-theorem IsViews.inv_nil {S : Sem} {srcs : Dir} {vs : List Str} (h : IsViews S srcs [] vs) : vs = [] := by
+theorem IsViews.inv_nil {S : Sem} {pz : Str} {srcs : Dir} {vs : List Str} (h : IsViews S pz srcs [] vs) : vs = [] := by
   cases h; rfl
 
-/-- Key coverage of the closure-keyed identity: two source states that give a module the same identity give it the same
-    cache-free symbol table (md5 injective). -/
-theorem id_covers {S : Sem} (H : Hyp S) {srcs srcs' : Dir} {k i : Str} (h : IsId S srcs k i) :
-    ∀ t t', IsId S srcs' k i → IsTab S srcs k t → IsTab S srcs' k t' → t = t' := by
-  refine @IsId.rec S srcs
-    (fun k i _ => ∀ t t', IsId S srcs' k i → IsTab S srcs k t → IsTab S srcs' k t' → t = t')
-    (fun ds is _ => ∀ vs vs', IsIds S srcs' ds is → IsViews S srcs ds vs → IsViews S srcs' ds vs' → vs = vs')
-    ?mk ?nil ?cons k i h
-  case mk =>
-    intro k own is hown hdeps ih t t' h2 ht ht'
-    obtain ⟨own', is', hown', hdeps', hi⟩ := h2.inv
-    obtain ⟨o1, vs, ho1, hv, rfl⟩ := ht.inv
-    obtain ⟨o2, vs', ho2, hv', rfl⟩ := ht'.inv
-    rw [hown] at ho1; cases ho1
-    rw [hown'] at ho2; cases ho2
-    have h1 := H.identL_inj _ _ hi
-    obtain ⟨e1, e2⟩ := List.append_inj' h1 rfl
-    have ed : own.data = own'.data := H.hash_inj _ _ (by simpa using e2)
-    subst e1
-    rw [← ed] at hdeps' hv' ⊢
-    rw [ih vs vs' hdeps' hv hv']
-  case nil =>
-    intro vs vs' _ hv hv'
-    rw [hv.inv_nil, hv'.inv_nil]
-  case cons =>
-    intro d i ds is hd hds ih1 ih2 vs vs' h2 hv hv'
-    obtain ⟨i', is', e, hd', hds'⟩ := h2.inv_cons
-    cases e
-    obtain ⟨t, vs1, rfl, ht, hvs⟩ := hv.inv_cons
-    obtain ⟨t', vs1', rfl, ht', hvs'⟩ := hv'.inv_cons
-    rw [ih1 t t' hd' ht ht', ih2 vs1 vs1' hds' hvs hvs']
-
 /-- the cache-free symbol table is unique -/
-theorem tab_det {S : Sem} {srcs : Dir} {k t : Str} (h : IsTab S srcs k t) : ∀ t', IsTab S srcs k t' → t = t' := by
-  refine @IsTab.rec S srcs
-    (fun k t _ => ∀ t', IsTab S srcs k t' → t = t')
-    (fun ds vs _ => ∀ vs', IsViews S srcs ds vs' → vs = vs')
+theorem tab_det {S : Sem} {pz : Str} {srcs : Dir} {k t : Str} (h : IsTab S pz srcs k t) : ∀ t', IsTab S pz srcs k t' → t = t' := by
+  refine @IsTab.rec S pz srcs
+    (fun k t _ => ∀ t', IsTab S pz srcs k t' → t = t')
+    (fun ds vs _ => ∀ vs', IsViews S pz srcs ds vs' → vs = vs')
     ?mk ?nil ?cons k t h
   case mk =>
     intro k own vs hown hdeps ih t' ht'
@@ -781,31 +813,160 @@ theorem tab_det {S : Sem} {srcs : Dir} {k t : Str} (h : IsTab S srcs k t) : ∀ 
 
 end Tranp.CacheFS
 
+
+namespace Tranp.CacheFS
+open Tranp
+
+/-! ### the identity over the import closure -/
+
+theorem mem_insertPair (x y : Str × Str) (l : List (Str × Str)) : y ∈ insertPair x l ↔ y = x ∨ y ∈ l := by
+  induction l with
+  | nil => simp [insertPair]
+  | cons z zs ih =>
+    unfold insertPair
+    split
+    · simp
+    · simp only [List.mem_cons, ih]
+      constructor
+      · rintro (h | h | h)
+        · exact Or.inr (Or.inl h)
+        · exact Or.inl h
+        · exact Or.inr (Or.inr h)
+      · rintro (h | h | h)
+        · exact Or.inr (Or.inl h)
+        · exact Or.inl h
+        · exact Or.inr (Or.inr h)
+
+theorem mem_foldl_insert (y : Str × Str) (l acc : List (Str × Str)) :
+    y ∈ l.foldl (fun acc x => insertPair x acc) acc ↔ y ∈ acc ∨ y ∈ l := by
+  induction l generalizing acc with
+  | nil => simp
+  | cons x xs ih =>
+    simp only [List.foldl_cons, ih, mem_insertPair, List.mem_cons]
+    constructor
+    · rintro ((h | h) | h)
+      · exact Or.inr (Or.inl h)
+      · exact Or.inl h
+      · exact Or.inr (Or.inr h)
+    · rintro (h | h | h)
+      · exact Or.inl (Or.inr h)
+      · exact Or.inl (Or.inl h)
+      · exact Or.inr h
+
+theorem mem_sortPairs (y : Str × Str) (l : List (Str × Str)) : y ∈ sortPairs l ↔ y ∈ l := by
+  unfold sortPairs
+  rw [mem_foldl_insert]; simp
+
+theorem map_inj' {α β : Type} (g : α → β) (hg : ∀ a b, g a = g b → a = b) : ∀ (xs ys : List α), xs.map g = ys.map g → xs = ys
+  | [], [], _ => rfl
+  | [], _ :: _, h => by simp at h
+  | _ :: _, [], h => by simp at h
+  | x :: xs, y :: ys, h => by
+    simp only [List.map_cons, List.cons.injEq] at h
+    rw [hg x y h.1, map_inj' g hg xs ys h.2]
+
+/-- `K` (module key ↦ file hash) contains `k`, records the hashes of the current files, and is closed under imports -/
+def IsClosure (S : Sem) (pz : Str) (srcs : Dir) (k : Str) (K : List (Str × Str)) : Prop :=
+  (∃ h, (k, h) ∈ K) ∧
+  ∀ d h, (d, h) ∈ K → ∃ f, srcs.get? d = some f ∧ h = S.hash f.data ∧ ∀ e ∈ S.importsOf (S.parse pz f.data), ∃ h', (e, h') ∈ K
+
+/-- the digest `Module.identity` computes from a collected closure `K` -/
+def identOf (S : Sem) (k : Str) (K : List (Str × Str)) (own : Str) : Str :=
+  S.identL ((sortPairs (K.filter (fun p => p.1 ≠ k))).map (fun p => S.entry (p.1 ++ pyExt) p.2) ++ [S.hash own])
+
+/-- `I` is an identity of module `k` over an import-closed set of files -/
+def IsIdC (S : Sem) (pz : Str) (srcs : Dir) (k I : Str) : Prop :=
+  ∃ K own, IsClosure S pz srcs k K ∧ srcs.get? k = some own ∧ I = identOf S k K own.data
+
+/-- on an import-closed set of files on which two source states agree, the cache-free symbol tables agree -/
+theorem tab_agree {S : Sem} {pz : Str} {srcs srcs' : Dir} (K : List (Str × Str))
+    (hK : ∀ d h, (d, h) ∈ K → ∃ f f', srcs.get? d = some f ∧ srcs'.get? d = some f' ∧ f.data = f'.data ∧
+      ∀ e ∈ S.importsOf (S.parse pz f.data), ∃ h', (e, h') ∈ K)
+    {k t : Str} (h : IsTab S pz srcs k t) : (∃ hh, (k, hh) ∈ K) → ∀ t', IsTab S pz srcs' k t' → t = t' := by
+  refine @IsTab.rec S pz srcs
+    (fun k t _ => (∃ hh, (k, hh) ∈ K) → ∀ t', IsTab S pz srcs' k t' → t = t')
+    (fun ds vs _ => (∀ e ∈ ds, ∃ h', (e, h') ∈ K) → ∀ vs', IsViews S pz srcs' ds vs' → vs = vs')
+    ?mk ?nil ?cons k t h
+  case mk =>
+    intro k own vs hown hdeps ih hin t' ht'
+    obtain ⟨hh, hkK⟩ := hin
+    obtain ⟨f, f', hf, hf', hdata, hcl⟩ := hK k hh hkK
+    rw [hown] at hf; cases hf
+    obtain ⟨o2, vs', ho2, hv', rfl⟩ := ht'.inv
+    rw [hf'] at ho2; cases ho2
+    rw [← hdata] at hv' ⊢
+    rw [ih hcl vs' hv']
+  case nil =>
+    intro _ vs' hv'
+    rw [hv'.inv_nil]
+  case cons =>
+    intro d t ds vs hd hds ih1 ih2 hall vs' hv'
+    obtain ⟨t', vs1', rfl, ht', hvs'⟩ := hv'.inv_cons
+    rw [ih1 (hall d (by simp)) t' ht', ih2 (fun e he => hall e (by simp [he])) vs1' hvs']
+
+/-- Key coverage: two source states that give a module the same closure identity give it the same cache-free symbol table
+    (md5 injective: the identity determines the files of the import closure and their contents). -/
+theorem id_covers {S : Sem} (H : Hyp S) {pz : Str} {srcs srcs' : Dir} {k I t t' : Str}
+    (h1 : IsIdC S pz srcs k I) (h2 : IsIdC S pz srcs' k I) (ht : IsTab S pz srcs k t) (ht' : IsTab S pz srcs' k t') : t = t' := by
+  obtain ⟨K, own, hc, hown, hI⟩ := h1
+  obtain ⟨K', own', hc', hown', hI'⟩ := h2
+  have he := H.identL_inj _ _ (hI.symm.trans hI')
+  unfold identOf at he
+  obtain ⟨e1, e2⟩ := List.append_inj' he rfl
+  have hdata : own.data = own'.data := H.hash_inj _ _ (by simpa using e2)
+  have e3 : sortPairs (K.filter (fun p => p.1 ≠ k)) = sortPairs (K'.filter (fun p => p.1 ≠ k)) := by
+    refine map_inj' _ ?_ _ _ e1
+    intro a b hab
+    obtain ⟨p1, p2⟩ := H.entry_inj _ _ _ _ hab
+    exact Prod.ext (List.append_cancel_right p1) p2
+  -- every pair of K is a pair of K'
+  have hsub : ∀ d h, (d, h) ∈ K → (d, h) ∈ K' := by
+    intro d h hm
+    by_cases hd : d = k
+    · subst hd
+      obtain ⟨f, hf, hh, _⟩ := hc.2 d h hm
+      rw [hown] at hf; cases hf
+      obtain ⟨h', hm'⟩ := hc'.1
+      obtain ⟨f', hf', hh', _⟩ := hc'.2 d h' hm'
+      rw [hown'] at hf'; cases hf'
+      rw [hh, hdata, ← hh']; exact hm'
+    · have : (d, h) ∈ sortPairs (K.filter (fun p => p.1 ≠ k)) := by
+        rw [mem_sortPairs]; simp [hm, hd]
+      rw [e3, mem_sortPairs] at this
+      exact (List.mem_filter.mp this).1
+  refine tab_agree K ?_ ht hc.1 t' ht'
+  intro d h hm
+  obtain ⟨f, hf, hh, hcl⟩ := hc.2 d h hm
+  obtain ⟨f', hf', hh', _⟩ := hc'.2 d h (hsub d h hm)
+  exact ⟨f, f', hf, hf', H.hash_inj _ _ (hh.symm.trans hh'), hcl⟩
+
+end Tranp.CacheFS
 namespace Tranp.CacheFS
 open Tranp
 
 /-! ### coherence of the symbol files under the closure-keyed identity -/
 
-/-- The content of `<key>-symbols-<ident>.json` is (a prefix of) the cache-free table of `key` for every source state in
-    which `key` has the identity `ident`. Does not mention the current sources, hence stable under edits. -/
-def SInv (S : Sem) (w : World) : Prop :=
+/-- The content of `<key>-symbols-<ident>.json` is (a prefix of) the payload of the cache-free table of `key` for every
+    source state in which `key` has the identity `ident` (parser `pz` fixed). Does not mention the current sources. -/
+def SInv (S : Sem) (pz : Str) (w : World) : Prop :=
   ∀ k ident f, '-' ∉ ident → w.cache.get? (symPath k ident) = some f →
-    ∃ full, f.data <+: full ∧ S.valid full = true ∧ ∀ (srcs : Dir) t, IsId S srcs k ident → IsTab S srcs k t → full = t
+    ∃ t0, f.data <+: S.encTab t0 ∧ ∀ (srcs : Dir) t, IsIdC S pz srcs k ident → IsTab S pz srcs k t → t0 = t
 
-theorem SInv.erase {S : Sem} {w : World} (h : SInv S w) (p : Str) : SInv S { w with cache := w.cache.erase p } := by
+theorem SInv.erase {S : Sem} {pz : Str} {w : World} (h : SInv S pz w) (p : Str) : SInv S pz { w with cache := w.cache.erase p } := by
   intro k ident f hi hget
   simp only [Dir.get?_erase] at hget
   split at hget
   · simp at hget
   · exact h k ident f hi hget
 
-theorem SInv.eraseAll {S : Sem} {w : World} (h : SInv S w) (ps : List Str) : SInv S { w with cache := ps.foldl Dir.erase w.cache } := by
+theorem SInv.eraseAll {S : Sem} {pz : Str} {w : World} (h : SInv S pz w) (ps : List Str) :
+    SInv S pz { w with cache := ps.foldl Dir.erase w.cache } := by
   induction ps generalizing w with
   | nil => exact h
   | cons p ps ih => exact ih (h.erase p)
 
-theorem SInv.put_other {S : Sem} {w : World} (h : SInv S w) (p : Str) (f : File) (c : Nat)
-    (hp : ∀ k ident, '-' ∉ ident → symPath k ident ≠ p) : SInv S { w with cache := w.cache.put p f, clock := c } := by
+theorem SInv.put_other {S : Sem} {pz : Str} {w : World} (h : SInv S pz w) (p : Str) (f : File) (c : Nat)
+    (hp : ∀ k ident, '-' ∉ ident → symPath k ident ≠ p) : SInv S pz { w with cache := w.cache.put p f, clock := c } := by
   intro k ident f' hi hget
   simp only at hget
   rw [Dir.get?_put_ne _ _ _ _ (hp k ident hi)] at hget
@@ -814,56 +975,59 @@ theorem SInv.put_other {S : Sem} {w : World} (h : SInv S w) (p : Str) (f : File)
 theorem symPath_ne_cachePath {k ident key i e : Str} (hi : '-' ∉ ident) (hi' : '-' ∉ i) (he : '-' ∉ e) (hk : '-' ∉ key) :
     symPath k ident ≠ cachePath key i e := fun h => cachePath_ne_symPath hk hi' hi he h.symm
 
-theorem SInv.put_sym {S : Sem} (H : Hyp S) {w : World} (h : SInv S w) (key ident table : Str) (m c : Nat) (hid : '-' ∉ ident)
-    (hv : S.valid table = true) (srcs0 : Dir) (hI : IsId S srcs0 key ident) (hT : IsTab S srcs0 key table) :
-    SInv S { w with cache := w.cache.put (symPath key ident) ⟨table, m⟩, clock := c } := by
+theorem SInv.put_sym {S : Sem} (H : Hyp S) {pz : Str} {w : World} (h : SInv S pz w) (key ident table : Str) (m c : Nat) (hid : '-' ∉ ident)
+    (srcs0 : Dir) (hI : IsIdC S pz srcs0 key ident) (hT : IsTab S pz srcs0 key table) :
+    SInv S pz { w with cache := w.cache.put (symPath key ident) ⟨S.encTab table, m⟩, clock := c } := by
   intro k ident' f hi hget
   simp only at hget
   by_cases hp : symPath k ident' = symPath key ident
   · obtain ⟨rfl, rfl⟩ := symPath_inj hi hid hp
     rw [Dir.get?_put_eq] at hget; cases hget
-    exact ⟨table, List.prefix_refl _, hv, fun srcs t hI' hT' => id_covers H hI table t hI' hT hT'⟩
+    exact ⟨table, List.prefix_refl _, fun srcs t hI' hT' => id_covers H hI hI' hT hT'⟩
   · rw [Dir.get?_put_ne _ _ _ _ hp] at hget
     exact h k ident' f hi hget
 
-theorem SInv.trunc {S : Sem} {w : World} (h : SInv S w) (p : Str) (f : File) (hf : w.cache.get? p = some f) (n : Nat) :
-    SInv S { w with cache := w.cache.put p (truncFile f n) } := by
+theorem SInv.trunc {S : Sem} {pz : Str} {w : World} (h : SInv S pz w) (p : Str) (f : File) (hf : w.cache.get? p = some f) (n : Nat) :
+    SInv S pz { w with cache := w.cache.put p (truncFile f n) } := by
   intro k ident f' hi hget
   simp only at hget
   by_cases hp : symPath k ident = p
   · subst hp
     rw [Dir.get?_put_eq] at hget; cases hget
-    obtain ⟨full, h2, h3⟩ := h k ident f hi hf
-    exact ⟨full, List.IsPrefix.trans (List.take_prefix _ _) h2, h3⟩
+    obtain ⟨t0, h2, h3⟩ := h k ident f hi hf
+    exact ⟨t0, List.IsPrefix.trans (List.take_prefix _ _) h2, h3⟩
   · rw [Dir.get?_put_ne _ _ _ _ hp] at hget
     exact h k ident f' hi hget
 
-/-- every cached identity of the session is the closure-keyed identity of its module -/
-def IdsOK (S : Sem) (w0 : World) (s : Sess) : Prop := ∀ k i, (k, i) ∈ s.ids → IsId S w0.srcs k i
+/-- every cached identity of the session is an identity over an import-closed set of current files -/
+def IdsOK (S : Sem) (w0 : World) (s : Sess) : Prop := ∀ k i, (k, i) ∈ s.ids → IsIdC S (w0.parserNow S) w0.srcs k i
 
-/-- every table of the session's db is the cache-free one, and its module's identity is cached -/
+/-- every table of the session's db is the cache-free one; its module has all imports loaded (`depends_on` was called),
+    its tree is registered and all its imports have tables -/
 def DbOK (S : Sem) (w0 : World) (s : Sess) : Prop :=
-  ∀ k t, (k, t) ∈ s.db → IsTab S w0.srcs k t ∧ ∃ i, List.lookup k s.ids = some i
+  ∀ k t, (k, t) ∈ s.db → IsTab S (w0.parserNow S) w0.srcs k t ∧ k ∈ s.depd ∧
+    ∃ sf, w0.srcs.get? k = some sf ∧ List.lookup k s.trees = some (S.parse (w0.parserNow S) sf.data) ∧
+      ∀ d ∈ S.importsOf (S.parse (w0.parserNow S) sf.data), (List.lookup d s.db).isSome = true
 
 /-- session invariant for the symbol layer; the symbol part holds as long as no analysis ran inside an import cycle -/
 def SS (S : Sem) (w0 : World) (s : Sess) : Prop :=
-  TS S w0 s ∧ (s.cyc = false → SInv S s.w ∧ IdsOK S w0 s ∧ DbOK S w0 s)
+  TS S w0 s ∧ (s.cyc = false → SInv S (w0.parserNow S) s.w ∧ IdsOK S w0 s ∧ DbOK S w0 s)
 
-theorem SInv_evict {S : Sem} {s : Sess} (h : SInv S s.w) (ps : List Str) : SInv S (s.evict ps).w := by
+theorem SInv_evict {S : Sem} {pz : Str} {s : Sess} (h : SInv S pz s.w) (ps : List Str) : SInv S pz (s.evict ps).w := by
   rw [Sess.evict_eq]; exact h.eraseAll ps
 
-theorem SInv_write {S : Sem} {s : Sess} (h : SInv S s.w) (dir p data : Str)
-    (hput : ∀ w m c, SInv S w → SInv S { w with cache := w.cache.put p ⟨data, m⟩, clock := c }) :
-    SInv S (s.write dir p data).w := by
+theorem SInv_write {S : Sem} {pz : Str} {s : Sess} (h : SInv S pz s.w) (dir p data : Str)
+    (hput : ∀ w m c, SInv S pz w → SInv S pz { w with cache := w.cache.put p ⟨data, m⟩, clock := c }) :
+    SInv S pz (s.write dir p data).w := by
   unfold Sess.write
   dsimp only
   split
   · exact hput _ _ _ h
   · exact h
 
-theorem cacheGet_SInv {S : Sem} {s : Sess} (h : SInv S s.w) (dir key ident ext fresh : Str) (bin : Bool)
-    (hput : ∀ w m c, SInv S w → SInv S { w with cache := w.cache.put (cachePath key ident ext) ⟨fresh, m⟩, clock := c }) :
-    SInv S (cacheGet S s dir key ident ext fresh bin).1.w := by
+theorem cacheGet_SInv {S : Sem} {pz : Str} {s : Sess} (h : SInv S pz s.w) (dir key ident ext fresh : Str) (bin : Bool)
+    (hput : ∀ w m c, SInv S pz w → SInv S pz { w with cache := w.cache.put (cachePath key ident ext) ⟨fresh, m⟩, clock := c }) :
+    SInv S pz (cacheGet S s dir key ident ext fresh bin).1.w := by
   unfold cacheGet
   split
   · exact h
@@ -874,71 +1038,47 @@ theorem cacheGet_SInv {S : Sem} {s : Sess} (h : SInv S s.w) (dir key ident ext f
       · exact h
     · exact SInv_write (SInv_evict (s := { s with w := s.w.mkdirs dir }) h _) _ _ _ hput
 
-theorem parserKey_nodash : '-' ∉ parserKey := by decide
-
-theorem cacheGet_rest {S : Sem} {s : Sess} {dir key ident ext fresh : Str} {bin : Bool} :
-    (cacheGet S s dir key ident ext fresh bin).1.db = s.db ∧ (cacheGet S s dir key ident ext fresh bin).1.cyc = s.cyc ∧
-    (cacheGet S s dir key ident ext fresh bin).1.ids = s.ids ∧ (cacheGet S s dir key ident ext fresh bin).1.w.srcs = s.w.srcs := by
-  unfold cacheGet
+theorem parserGet_rest {S : Sem} (H : Hyp S) {pz0 : Str} (s : Sess) :
+    (parserGet S s).1.db = s.db ∧ (parserGet S s).1.cyc = s.cyc ∧ (parserGet S s).1.ids = s.ids ∧ (parserGet S s).1.w.srcs = s.w.srcs ∧
+    (parserGet S s).1.trees = s.trees ∧ (parserGet S s).1.loaded = s.loaded ∧ (parserGet S s).1.out = s.out ∧
+    (SInv S pz0 s.w → SInv S pz0 (parserGet S s).1.w) ∧ (parserGet S s).1.depd = s.depd := by
+  unfold parserGet
   split
-  · simp
-  · dsimp only
-    split
-    · split <;> simp [Sess.ev, Sess.fail]
-    · simp only [Sess.write, Sess.evict_eq, Sess.ev, Sess.fail, World.mkdirs]
-      split <;> simp
+  · exact ⟨rfl, rfl, rfl, rfl, rfl, rfl, rfl, id, rfl⟩
+  · have hr := cacheGet_rest (S := S) (s := s) (dir := []) (key := parserKey) (ident := S.parserIdent s.w.grammar s.w.start s.w.algo s.w.grammarMtime)
+      (ext := binExt) (fresh := s.w.parserNow S) (bin := true)
+    have hsi : SInv S pz0 s.w → SInv S pz0 (cacheGet S s [] parserKey (S.parserIdent s.w.grammar s.w.start s.w.algo s.w.grammarMtime) binExt (s.w.parserNow S) true).1.w :=
+      fun h => cacheGet_SInv h _ _ _ _ _ _
+        (fun w m c hw => hw.put_other _ _ _ (fun k ident hi => symPath_ne_cachePath hi (H.parser_nodash _ _ _ _) binExt_nodash parserKey_nodash))
+    generalize cacheGet S s [] parserKey (S.parserIdent s.w.grammar s.w.start s.w.algo s.w.grammarMtime) binExt (s.w.parserNow S) true = res at hr hsi
+    obtain ⟨s', r⟩ := res
+    cases r with
+    | none => exact ⟨hr.1, hr.2.1, hr.2.2.1, hr.2.2.2.1, hr.2.2.2.2.1, hr.2.2.2.2.2.2.1, hr.2.2.2.2.2.2.2.1, hsi, hr.2.2.2.2.2.2.2.2⟩
+    | some pz => exact ⟨hr.1, hr.2.1, hr.2.2.1, hr.2.2.2.1, hr.2.2.2.2.1, hr.2.2.2.2.2.2.1, hr.2.2.2.2.2.2.2.1, hsi, hr.2.2.2.2.2.2.2.2⟩
 
-theorem treeGet_sym {S : Sem} (H : Hyp S) {s : Sess} (key : Str) (hk : ∀ f, s.w.srcs.get? key = some f → KeyOK key) :
+theorem treeGet_sym {S : Sem} (H : Hyp S) {pz0 : Str} {s : Sess} (key : Str) (hk : ∀ f, s.w.srcs.get? key = some f → KeyOK key) :
     (treeGet S s key).1.db = s.db ∧ (treeGet S s key).1.cyc = s.cyc ∧ (treeGet S s key).1.ids = s.ids ∧
-      (SInv S s.w → SInv S (treeGet S s key).1.w) := by
+      (SInv S pz0 s.w → SInv S pz0 (treeGet S s key).1.w) ∧
+      (treeGet S s key).1.trees = s.trees ∧ (treeGet S s key).1.loaded = s.loaded ∧ (treeGet S s key).1.depd = s.depd := by
   unfold treeGet
-  have h1 : ∃ s1 : Sess, (if s.parserUp then s else
-      match cacheGet S s [] parserKey (S.parserIdent s.w.grammarMtime) binExt (S.parserBlob s.w.grammarMtime) true with
-      | (s', r) => if r.isSome then { s' with parserUp := true } else s') = s1 ∧ s1.db = s.db ∧ s1.cyc = s.cyc ∧ s1.ids = s.ids ∧
-        s1.w.srcs = s.w.srcs ∧ (SInv S s.w → SInv S s1.w) := by
+  have hp := parserGet_rest (pz0 := pz0) H s
+  generalize parserGet S s = rp at hp
+  obtain ⟨s1, op⟩ := rp
+  obtain ⟨hdb, hcyc, hids, hsrcs, htr, hlo, _, hsinv, hdp⟩ := hp
+  dsimp only at hdb hcyc hids hsrcs hsinv htr hlo hdp
+  cases op with
+  | none => exact ⟨hdb, hcyc, hids, hsinv, htr, hlo, hdp⟩
+  | some pz =>
+    dsimp only
     split
-    · exact ⟨s, rfl, rfl, rfl, rfl, rfl, id⟩
-    · have hr := cacheGet_rest (S := S) (s := s) (dir := []) (key := parserKey) (ident := S.parserIdent s.w.grammarMtime) (ext := binExt)
-        (fresh := S.parserBlob s.w.grammarMtime) (bin := true)
-      have hsi : SInv S s.w → SInv S (cacheGet S s [] parserKey (S.parserIdent s.w.grammarMtime) binExt (S.parserBlob s.w.grammarMtime) true).1.w :=
-        fun h => cacheGet_SInv h _ _ _ _ _ _
-          (fun w m c hw => hw.put_other _ _ _ (fun k ident hi => symPath_ne_cachePath hi (H.parser_nodash _) binExt_nodash parserKey_nodash))
-      generalize cacheGet S s [] parserKey (S.parserIdent s.w.grammarMtime) binExt (S.parserBlob s.w.grammarMtime) true = res at hr hsi
-      obtain ⟨s', r⟩ := res
-      dsimp only at hr hsi ⊢
-      split
-      · exact ⟨_, rfl, hr.1, hr.2.1, hr.2.2.1, hr.2.2.2, hsi⟩
-      · exact ⟨_, rfl, hr.1, hr.2.1, hr.2.2.1, hr.2.2.2, hsi⟩
-  obtain ⟨s1, he, hdb, hcyc, hids, hsrcs, hsinv⟩ := h1
-  dsimp only
-  rw [he]
-  split
-  · exact ⟨hdb, hcyc, hids, hsinv⟩
-  · split
-    · exact ⟨hdb, hcyc, hids, hsinv⟩
+    · exact ⟨hdb, hcyc, hids, hsinv, htr, hlo, hdp⟩
     · rename_i src hsrc
       have hkey : KeyOK key := hk src (by rw [← hsrcs]; exact hsrc)
-      refine ⟨by rw [cacheGet_rest.1, hdb], by rw [cacheGet_rest.2.1, hcyc], by rw [cacheGet_rest.2.2.1, hids],
-        fun h => cacheGet_SInv (hsinv h) _ _ _ _ _ _ ?_⟩
+      have hr := cacheGet_rest (S := S) (s := s1) (dir := dirname key) (key := key) (ident := S.treeIdent s1.w.grammarMtime src.mtime)
+        (ext := jsonExt) (fresh := S.parse pz src.data) (bin := false)
+      refine ⟨by rw [hr.1, hdb], by rw [hr.2.1, hcyc], by rw [hr.2.2.1, hids],
+        fun h => cacheGet_SInv (hsinv h) _ _ _ _ _ _ ?_, by rw [hr.2.2.2.2.1, htr], by rw [hr.2.2.2.2.2.2.1, hlo], by rw [hr.2.2.2.2.2.2.2.2, hdp]⟩
       exact fun w m c hw => hw.put_other _ _ _ (fun k ident hi => symPath_ne_cachePath hi (H.tree_nodash _ _) jsonExt_nodash hkey.1)
-
-theorem treeGet_SS {S : Sem} (H : Hyp S) {w0 : World} {s : Sess} (h : SS S w0 s) (key : Str) {s' : Sess} {r : Option Str}
-    (heq : treeGet S s key = (s', r)) :
-    SS S w0 s' ∧ ∀ tree, r = some tree → FreshTree S w0 key tree ∧
-      SS S w0 { s' with loaded := s'.loaded ++ [key], trees := s'.trees ++ [(key, tree)] } := by
-  obtain ⟨hts, hsym⟩ := h
-  obtain ⟨h1, h2⟩ := treeGet_TS H hts key heq
-  have h3 := treeGet_sym H (s := s) key (fun f hf => hts.1.keys key f hf)
-  rw [heq] at h3
-  obtain ⟨hdb, hcyc, hids, hsinv⟩ := h3
-  dsimp only at hdb hcyc hids hsinv
-  have hS : s'.cyc = false → SInv S s'.w ∧ IdsOK S w0 s' ∧ DbOK S w0 s' := by
-    intro hc
-    obtain ⟨a, b, c⟩ := hsym (by rw [← hcyc]; exact hc)
-    refine ⟨hsinv a, fun k i hki => b k i (by rw [← hids]; exact hki), fun k t hkt => ?_⟩
-    have := c k t (by rw [← hdb]; exact hkt)
-    rw [hids]; exact this
-  exact ⟨⟨h1, hS⟩, fun tree hr => ⟨(h2 tree hr).1, (h2 tree hr).2, hS⟩⟩
 
 end Tranp.CacheFS
 
@@ -961,23 +1101,357 @@ theorem lookup_append_none {k v : Str} : ∀ {l : List (Str × Str)}, List.looku
     · rename_i hk; simp only [hk] at h; cases h
     · rename_i hk; simp only [hk] at h; exact lookup_append_none h
 
-theorem depIdentities_cached {S : Sem} {w0 : World} {s : Sess} (hdb : DbOK S w0 s) (hids : IdsOK S w0 s) (ims : List Str)
-    (hall : ims.all (fun d => (List.lookup d s.db).isSome) = true) :
-    ∃ is, depIdentities S s ims = (s, some is) ∧ IsIds S w0.srcs ims is := by
-  induction ims with
-  | nil => exact ⟨[], rfl, IsIds.nil⟩
-  | cons d ims ih =>
-    simp only [List.all_cons, Bool.and_eq_true] at hall
-    obtain ⟨is, h1, h2⟩ := ih hall.2
-    cases hl : List.lookup d s.db with
-    | none => simp [hl] at hall
-    | some t =>
-      obtain ⟨_, i, hi⟩ := hdb d t (lookup_mem' hl)
-      refine ⟨i :: is, ?_, IsIds.cons (hids d i (lookup_mem' hi)) h2⟩
-      simp [depIdentities, depIdentity, hi, h1]
+theorem preprocessWith_rest {S : Sem} (s : Sess) (key tree : Str) (views : List Str) (ident : Str) :
+    (preprocessWith S s key tree views ident).1.cyc = s.cyc ∧ (preprocessWith S s key tree views ident).1.db = s.db ∧
+      (preprocessWith S s key tree views ident).1.ids = s.ids ∧ (preprocessWith S s key tree views ident).1.trees = s.trees ∧
+      (preprocessWith S s key tree views ident).1.loaded = s.loaded ∧ (preprocessWith S s key tree views ident).1.out = s.out ∧
+      (preprocessWith S s key tree views ident).1.parser = s.parser ∧ (preprocessWith S s key tree views ident).1.w.srcs = s.w.srcs ∧
+      (preprocessWith S s key tree views ident).1.depd = s.depd := by
+  unfold preprocessWith
+  dsimp only
+  split
+  · split
+    · split <;> simp [Sess.ev, Sess.fail]
+    · simp
+  · split
+    · simp
+    · simp only [Sess.write, Sess.evict_eq, Sess.ev, Sess.fail]
+      split <;> simp
+
+theorem preprocess_rest {S : Sem} (s : Sess) (key tree : Str) (views : List Str) :
+    (preprocess S s key tree views).1.trees = s.trees ∧ (preprocess S s key tree views).1.loaded = s.loaded ∧
+    (preprocess S s key tree views).1.db = s.db ∧ (preprocess S s key tree views).1.out = s.out ∧
+    (preprocess S s key tree views).1.w.srcs = s.w.srcs ∧ (preprocess S s key tree views).1.parser = s.parser ∧
+    (preprocess S s key tree views).1.depd = s.depd ∧ (preprocess S s key tree views).1.cyc = s.cyc := by
+  unfold preprocess identityM
+  generalize identityCore S s.w.srcs s.trees s.depd s.ids key = ri
+  obtain ⟨ids', o⟩ := ri
+  cases o with
+  | none => exact ⟨rfl, rfl, rfl, rfl, rfl, rfl, rfl, rfl⟩
+  | some ident =>
+    have h := preprocessWith_rest (S := S) { s with ids := ids' } key tree views ident
+    exact ⟨h.2.2.2.1, h.2.2.2.2.1, h.2.1, h.2.2.2.2.2.1, h.2.2.2.2.2.2.2.1, h.2.2.2.2.2.2.1, h.2.2.2.2.2.2.2.2, h.1⟩
+
+theorem preprocess_cyc {S : Sem} (s : Sess) (key tree : Str) (views : List Str) : (preprocess S s key tree views).1.cyc = s.cyc :=
+  (preprocess_rest s key tree views).2.2.2.2.2.2.2
+
+/-- the keys of the registered trees are registered modules -/
+def TK (s : Sess) : Prop := ∀ k t, List.lookup k s.trees = some t → s.loaded.contains k = true
+
+theorem lookup_append_inv {k v : Str} {l : List (Str × Str)} {k' v' : Str} (h : List.lookup k (l ++ [(k', v')]) = some v) :
+    List.lookup k l = some v ∨ k = k' := by
+  induction l with
+  | nil =>
+    simp only [List.nil_append, List.lookup] at h
+    split at h
+    · rename_i hk; right; simpa using hk
+    · simp [List.lookup] at h
+  | cons x l ih =>
+    obtain ⟨a, b⟩ := x
+    simp only [List.cons_append, List.lookup] at h ⊢
+    split
+    · rename_i hk; simp only [hk] at h; exact Or.inl h
+    · rename_i hk; simp only [hk] at h; exact ih h
+
+theorem treeGet_rest {S : Sem} (H : Hyp S) (s : Sess) (key : Str) :
+    (treeGet S s key).1.db = s.db ∧ (treeGet S s key).1.cyc = s.cyc ∧ (treeGet S s key).1.ids = s.ids ∧
+    (treeGet S s key).1.trees = s.trees ∧ (treeGet S s key).1.loaded = s.loaded ∧ (treeGet S s key).1.out = s.out ∧
+    (treeGet S s key).1.w.srcs = s.w.srcs ∧ (treeGet S s key).1.depd = s.depd := by
+  unfold treeGet
+  have hp := parserGet_rest (pz0 := []) H s
+  generalize parserGet S s = rp at hp
+  obtain ⟨s1, op⟩ := rp
+  obtain ⟨h1, h2, h3, h4, h5, h6, h7, _, h8⟩ := hp
+  dsimp only at h1 h2 h3 h4 h5 h6 h7 h8
+  cases op with
+  | none => exact ⟨h1, h2, h3, h5, h6, h7, h4, h8⟩
+  | some pz =>
+    dsimp only
+    split
+    · exact ⟨h1, h2, h3, h5, h6, h7, h4, h8⟩
+    · rename_i src _
+      have hr := cacheGet_rest (S := S) (s := s1) (dir := dirname key) (key := key) (ident := S.treeIdent s1.w.grammarMtime src.mtime)
+        (ext := jsonExt) (fresh := S.parse pz src.data) (bin := false)
+      exact ⟨by rw [hr.1, h1], by rw [hr.2.1, h2], by rw [hr.2.2.1, h3], by rw [hr.2.2.2.2.1, h5], by rw [hr.2.2.2.2.2.2.1, h6],
+        by rw [hr.2.2.2.2.2.2.2.1, h7], by rw [hr.2.2.2.1, h4], by rw [hr.2.2.2.2.2.2.2.2, h8]⟩
+
+theorem TK.addTree {s : Sess} (h : TK s) (key tree : Str) :
+    TK { s with loaded := s.loaded ++ [key], trees := s.trees ++ [(key, tree)] } := by
+  intro k t hl
+  simp only at hl ⊢
+  rcases lookup_append_inv hl with h1 | rfl
+  · have := h k t h1
+    simp only [List.contains_eq_mem, List.mem_append, decide_eq_true_eq] at this ⊢
+    exact Or.inl this
+  · simp
+
+theorem loadMod_TK {S : Sem} (H : Hyp S) (f : Nat) (s : Sess) (key : Str) (h : TK s) : TK (loadMod S f s key) :=
+  loadMod_inv S TK (fun _ _ => True)
+    (fun _ _ hs => hs)
+    (fun s key s' r hs heq => by
+      have hr := treeGet_rest H s key
+      rw [heq] at hr
+      dsimp only at hr
+      have : TK s' := fun k t hl => by rw [hr.2.2.2.2.1]; exact hs k t (by rw [← hr.2.2.2.1]; exact hl)
+      exact ⟨this, fun tree _ => ⟨trivial, this.addTree key tree⟩⟩)
+    (fun _ hs => hs)
+    (fun _ _ hs => hs)
+    (fun s key tree s' r hs _ _ _ heq => by
+      have hr := preprocess_rest (S := S) s key tree (viewsOf S s.db (S.importsOf tree))
+      rw [heq] at hr
+      dsimp only at hr
+      have : TK s' := fun k t hl => by rw [hr.2.1]; exact hs k t (by rw [← hr.1]; exact hl)
+      exact ⟨this, fun _ _ => this⟩)
+    f s key h
+
+/-- a registered tree stays registered under its key -/
+theorem trees_lookup_mono {S : Sem} (H : Hyp S) (k t : Str) (f : Nat) (s : Sess) (key : Str) (h : List.lookup k s.trees = some t) :
+    List.lookup k (loadMod S f s key).trees = some t :=
+  loadMod_inv S (fun s => List.lookup k s.trees = some t) (fun _ _ => True)
+    (fun _ _ hs => hs)
+    (fun s key s' r hs heq => by
+      have := (treeGet_rest H s key).2.2.2.1
+      rw [heq] at this
+      dsimp only at this
+      exact ⟨by rw [this]; exact hs, fun _ _ => ⟨trivial, by show List.lookup k (s'.trees ++ _) = some t; rw [this]; exact lookup_append_some hs⟩⟩)
+    (fun _ hs => hs)
+    (fun _ _ hs => hs)
+    (fun s key tree s' r hs _ _ _ heq => by
+      have := (preprocess_rest (S := S) s key tree (viewsOf S s.db (S.importsOf tree))).1
+      rw [heq] at this
+      dsimp only at this
+      exact ⟨by rw [this]; exact hs, fun _ _ => by show List.lookup k s'.trees = some t; rw [this]; exact hs⟩)
+    f s key h
+
+/-- `loadMod_inv` with the extra knowledge, at `preprocess` time, that the module's tree is registered under its key -/
+theorem loadMod_inv' (S : Sem) (H : Hyp S) (P : Sess → Prop) (F : Str → Str → Prop)
+    (hfail : ∀ s e, P s → P (s.fail e))
+    (htree : ∀ s key s' r, P s → treeGet S s key = (s', r) →
+      P s' ∧ ∀ tree, r = some tree → F key tree ∧ P { s' with loaded := s'.loaded ++ [key], trees := s'.trees ++ [(key, tree)] })
+    (hcyc : ∀ s, P s → P { s with cyc := true })
+    (hdep : ∀ s key, P s → P { s with depd := s.depd ++ [key] })
+    (hpre : ∀ s key tree s' r, P s → F key tree → key ∈ s.depd → List.lookup key s.trees = some tree →
+      ((S.importsOf tree).all (fun d => (List.lookup d s.db).isSome) = true ∨ s.cyc = true) →
+      preprocess S s key tree (viewsOf S s.db (S.importsOf tree)) = (s', r) →
+      P s' ∧ ∀ table, r = some table → P { s' with db := s'.db ++ [(key, table)] }) :
+    ∀ f s key, P s → TK s → P (loadMod S f s key) := by
+  intro f
+  induction f with
+  | zero => intro s key hs _; exact hfail _ _ hs
+  | succ f ih =>
+    intro s key hs htk
+    rw [loadMod]
+    split
+    · exact hs
+    · split
+      · exact hs
+      · have h1 : P (if s.w.libs.contains key then s else s.w.libs.foldl (loadMod S f) s) ∧
+            TK (if s.w.libs.contains key then s else s.w.libs.foldl (loadMod S f) s) := by
+          split
+          · exact ⟨hs, htk⟩
+          · exact foldl_inv (fun s => P s ∧ TK s) _ (fun a b ha => ⟨ih a b ha.1 ha.2, loadMod_TK H f a b ha.2⟩) _ _ ⟨hs, htk⟩
+        generalize (if s.w.libs.contains key then s else s.w.libs.foldl (loadMod S f) s) = s1 at h1
+        obtain ⟨h1, htk1⟩ := h1
+        dsimp only
+        split
+        · exact h1
+        · split
+          · exact h1
+          · rename_i hnl
+            split
+            · rename_i s2 heq
+              exact (htree _ _ _ _ h1 heq).1
+            · rename_i s2 tree heq
+              obtain ⟨_, h2⟩ := htree _ _ _ _ h1 heq
+              obtain ⟨hF, h3⟩ := h2 tree rfl
+              have hr := treeGet_rest H s1 key
+              rw [heq] at hr
+              dsimp only at hr
+              have htk2 : TK s2 := fun k t hl => by rw [hr.2.2.2.2.1]; exact htk1 k t (by rw [← hr.2.2.2.1]; exact hl)
+              have hnone : List.lookup key s2.trees = none := by
+                cases hl : List.lookup key s2.trees with
+                | none => rfl
+                | some t =>
+                  have := htk2 key t hl
+                  rw [hr.2.2.2.2.1] at this
+                  exact absurd this hnl
+              have hlk : List.lookup key (s2.trees ++ [(key, tree)]) = some tree := lookup_append_none hnone
+              have h4 := foldl_inv (fun s => (P s ∧ TK s) ∧ List.lookup key s.trees = some tree) _
+                (fun a b ha => ⟨⟨ih a b ha.1.1 ha.1.2, loadMod_TK H f a b ha.1.2⟩, trees_lookup_mono H key tree f a b ha.2⟩) (S.importsOf tree) _
+                ⟨⟨h3, htk2.addTree key tree⟩, hlk⟩
+              generalize (S.importsOf tree).foldl (loadMod S f) _ = s3 at h4
+              obtain ⟨⟨h4, _⟩, hmem⟩ := h4
+              split
+              · exact h4
+              · have h4' := hdep _ key h4
+                have hkd : key ∈ ({ s3 with depd := s3.depd ++ [key] } : Sess).depd := by simp
+                by_cases hall : (S.importsOf tree).all (fun d => (List.lookup d s3.db).isSome) = true
+                · simp only [hall, ↓reduceIte]
+                  split
+                  · rename_i s4 heq2
+                    exact (hpre { s3 with depd := s3.depd ++ [key] } key tree _ _ h4' hF hkd hmem (Or.inl hall) heq2).1
+                  · rename_i s4 table heq2
+                    exact (hpre { s3 with depd := s3.depd ++ [key] } key tree _ _ h4' hF hkd hmem (Or.inl hall) heq2).2 table rfl
+                · simp only [hall, Bool.false_eq_true, ↓reduceIte]
+                  have h5 := hcyc _ h4'
+                  split
+                  · rename_i s4 heq2
+                    exact (hpre { s3 with depd := s3.depd ++ [key], cyc := true } key tree _ _ h5 hF hkd hmem (Or.inr rfl) heq2).1
+                  · rename_i s4 table heq2
+                    exact (hpre { s3 with depd := s3.depd ++ [key], cyc := true } key tree _ _ h5 hF hkd hmem (Or.inr rfl) heq2).2 table rfl
+
+end Tranp.CacheFS
+
+namespace Tranp.CacheFS
+open Tranp
+
+/-! ### `__collect_hashes` collects an import-closed set of files -/
+
+theorem lookup_isSome_iff {k : Str} {l : List (Str × Str)} : (List.lookup k l).isSome = true ↔ ∃ v, (k, v) ∈ l := by
+  induction l with
+  | nil => simp [List.lookup]
+  | cons x l ih =>
+    obtain ⟨a, b⟩ := x
+    simp only [List.lookup]
+    split
+    · rename_i hk
+      have : k = a := by simpa using hk
+      subst this
+      simp
+    · rename_i hk
+      have hne : k ≠ a := by simpa using hk
+      rw [ih]
+      constructor
+      · rintro ⟨v, hv⟩; exact ⟨v, List.mem_cons_of_mem _ hv⟩
+      · rintro ⟨v, hv⟩
+        simp only [List.mem_cons, Prod.mk.injEq] at hv
+        rcases hv with ⟨h1, _⟩ | hv
+        · exact absurd h1 hne
+        · exact ⟨v, hv⟩
+
+/-- the visited dict during the traversal: right hashes, only nodes of `N`, and every finished node (not on the stack `P`)
+    has all its imports visited -/
+def GoodH (S : Sem) (pz : Str) (srcs : Dir) (N : Str → Prop) (H : List (Str × Str)) (P : List Str) : Prop :=
+  (∀ d h, (d, h) ∈ H → N d ∧ ∃ f, srcs.get? d = some f ∧ h = S.hash f.data) ∧
+  (∀ d h, (d, h) ∈ H → d ∉ P → ∀ sf, srcs.get? d = some sf → ∀ e ∈ S.importsOf (S.parse pz sf.data), (List.lookup e H).isSome = true)
+
+theorem collect_spec {S : Sem} {pz : Str} {srcs : Dir} {trees : List (Str × Str)} {depd : List Str} {N : Str → Prop}
+    (hN : ∀ v, N v → ∃ sf, srcs.get? v = some sf ∧ List.lookup v trees = some (S.parse pz sf.data) ∧ depd.contains v = true ∧
+      ∀ e ∈ S.importsOf (S.parse pz sf.data), N e) :
+    ∀ f H k P H', N k → GoodH S pz srcs N H P → collect S srcs trees depd f H k = some H' →
+      GoodH S pz srcs N H' P ∧ (∀ x, x ∈ H → x ∈ H') ∧ (List.lookup k H').isSome = true := by
+  intro f
+  induction f with
+  | zero => intro H k P H' _ _ h; simp [collect] at h
+  | succ f ih =>
+    intro H k P H' hk hg h
+    rw [collect] at h
+    split at h
+    · rename_i hv
+      cases h
+      exact ⟨hg, fun _ hx => hx, hv⟩
+    · rename_i hnv
+      obtain ⟨sf, hsf, htr, hdp, himp⟩ := hN k hk
+      rw [hsf, htr] at h
+      simp only [hdp, ↓reduceIte] at h
+      -- the fold over the imports
+      have hfold : ∀ (ds : List Str), (∀ e ∈ ds, N e) → ∀ H0 H1, GoodH S pz srcs N H0 (k :: P) →
+          ds.foldl (fun acc d => match acc with
+            | none => none
+            | some H => if (srcs.get? d).isSome then collect S srcs trees depd f H d else some H) (some H0) = some H1 →
+          GoodH S pz srcs N H1 (k :: P) ∧ (∀ x, x ∈ H0 → x ∈ H1) ∧ ∀ e ∈ ds, (List.lookup e H1).isSome = true := by
+        intro ds
+        induction ds with
+        | nil => intro _ H0 H1 hg0 he; simp at he; subst he; exact ⟨hg0, fun _ hx => hx, fun _ he => by simp at he⟩
+        | cons d ds ihd =>
+          intro hall H0 H1 hg0 he
+          simp only [List.foldl_cons] at he
+          obtain ⟨sd, hsd, _⟩ := hN d (hall d (by simp))
+          simp only [hsd, Option.isSome_some, ↓reduceIte] at he
+          cases hc : collect S srcs trees depd f H0 d with
+          | none =>
+            rw [hc] at he
+            have : ∀ (l : List Str), l.foldl (fun acc d => match acc with
+                | none => none
+                | some H => if (srcs.get? d).isSome then collect S srcs trees depd f H d else some H) none = none := by
+              intro l; induction l with
+              | nil => rfl
+              | cons _ _ ihl => simpa using ihl
+            rw [this] at he; cases he
+          | some H2 =>
+            rw [hc] at he
+            obtain ⟨g2, m2, l2⟩ := ih H0 d (k :: P) H2 (hall d (by simp)) hg0 hc
+            obtain ⟨g3, m3, l3⟩ := ihd (fun e he' => hall e (by simp [he'])) H2 H1 g2 he
+            refine ⟨g3, fun x hx => m3 x (m2 x hx), ?_⟩
+            intro e he'
+            simp only [List.mem_cons] at he'
+            rcases he' with rfl | he'
+            · obtain ⟨v, hv⟩ := lookup_isSome_iff.mp l2
+              exact lookup_isSome_iff.mpr ⟨v, m3 _ hv⟩
+            · exact l3 e he'
+      have hg1 : GoodH S pz srcs N (H ++ [(k, S.hash sf.data)]) (k :: P) := by
+        refine ⟨?_, ?_⟩
+        · intro d hh hm
+          simp only [List.mem_append, List.mem_singleton, Prod.mk.injEq] at hm
+          rcases hm with hm | ⟨rfl, rfl⟩
+          · exact hg.1 d hh hm
+          · exact ⟨hk, sf, hsf, rfl⟩
+        · intro d hh hm hnp sd hsd e he
+          simp only [List.mem_append, List.mem_singleton, Prod.mk.injEq] at hm
+          simp only [List.mem_cons, not_or] at hnp
+          rcases hm with hm | ⟨rfl, _⟩
+          · obtain ⟨v, hv⟩ := lookup_isSome_iff.mp (hg.2 d hh hm hnp.2 sd hsd e he)
+            exact lookup_isSome_iff.mpr ⟨v, by simp [hv]⟩
+          · exact absurd rfl hnp.1
+      obtain ⟨g2, m2, l2⟩ := hfold _ himp _ _ hg1 h
+      refine ⟨⟨g2.1, ?_⟩, fun x hx => m2 x (by simp [hx]), lookup_isSome_iff.mpr ⟨S.hash sf.data, m2 _ (by simp)⟩⟩
+      intro d hh hm hnp sd hsd e he
+      by_cases hdk : d = k
+      · subst hdk
+        rw [hsf] at hsd; cases hsd
+        exact l2 e he
+      · exact g2.2 d hh hm (by simp [hdk, hnp]) sd hsd e he
+
+/-- the result of a traversal that starts with an empty dict is an import-closed set of current files containing the module -/
+theorem collect_closure {S : Sem} {pz : Str} {srcs : Dir} {trees : List (Str × Str)} {depd : List Str} {N : Str → Prop}
+    (hN : ∀ v, N v → ∃ sf, srcs.get? v = some sf ∧ List.lookup v trees = some (S.parse pz sf.data) ∧ depd.contains v = true ∧
+      ∀ e ∈ S.importsOf (S.parse pz sf.data), N e)
+    (f : Nat) (k : Str) (K : List (Str × Str)) (hk : N k) (h : collect S srcs trees depd f [] k = some K) : IsClosure S pz srcs k K := by
+  obtain ⟨g, _, l⟩ := collect_spec hN f [] k [] K hk ⟨fun _ _ hm => by simp at hm, fun _ _ hm => by simp at hm⟩ h
+  refine ⟨lookup_isSome_iff.mp l, ?_⟩
+  intro d hh hm
+  obtain ⟨_, sf, hsf, hhh⟩ := g.1 d hh hm
+  exact ⟨sf, hsf, hhh, fun e he => lookup_isSome_iff.mp (g.2 d hh hm (by simp) sf hsf e he)⟩
+
+end Tranp.CacheFS
+
+namespace Tranp.CacheFS
+open Tranp
+
+theorem treeGet_SS {S : Sem} (H : Hyp S) {w0 : World} {s : Sess} (h : SS S w0 s) (key : Str) {s' : Sess} {r : Option Str}
+    (heq : treeGet S s key = (s', r)) :
+    SS S w0 s' ∧ ∀ tree, r = some tree → FreshTree S w0 key tree ∧
+      SS S w0 { s' with loaded := s'.loaded ++ [key], trees := s'.trees ++ [(key, tree)] } := by
+  obtain ⟨hts, hsym⟩ := h
+  obtain ⟨h1, h2⟩ := treeGet_TS H hts key heq
+  have h3 := treeGet_sym (pz0 := w0.parserNow S) H (s := s) key (fun f hf => hts.inv.keys key f hf)
+  rw [heq] at h3
+  obtain ⟨hdb, hcyc, hids, hsinv, htr, _, hdp⟩ := h3
+  dsimp only at hdb hcyc hids hsinv htr hdp
+  have hS : s'.cyc = false → SInv S (w0.parserNow S) s'.w ∧ IdsOK S w0 s' ∧ DbOK S w0 s' := by
+    intro hc
+    obtain ⟨a, b, c⟩ := hsym (by rw [← hcyc]; exact hc)
+    refine ⟨hsinv a, fun k i hki => b k i (by rw [← hids]; exact hki), fun k t hkt => ?_⟩
+    have := c k t (by rw [← hdb]; exact hkt)
+    rw [hdp, htr, hdb]; exact this
+  refine ⟨⟨h1, hS⟩, fun tree hr => ⟨(h2 tree hr).1, (h2 tree hr).2, fun hc => ?_⟩⟩
+  obtain ⟨a, b, c⟩ := hS hc
+  refine ⟨a, b, fun k t hkt => ?_⟩
+  obtain ⟨c1, c2, sf, c3, c4, c5⟩ := c k t hkt
+  exact ⟨c1, c2, sf, c3, lookup_append_some c4, c5⟩
 
 theorem viewsOf_isViews {S : Sem} {w0 : World} {s : Sess} (hdb : DbOK S w0 s) (ims : List Str)
-    (hall : ims.all (fun d => (List.lookup d s.db).isSome) = true) : IsViews S w0.srcs ims (viewsOf S s.db ims) := by
+    (hall : ims.all (fun d => (List.lookup d s.db).isSome) = true) : IsViews S (w0.parserNow S) w0.srcs ims (viewsOf S s.db ims) := by
   induction ims with
   | nil => exact IsViews.nil
   | cons d ims ih =>
@@ -988,94 +1462,105 @@ theorem viewsOf_isViews {S : Sem} {w0 : World} {s : Sess} (hdb : DbOK S w0 s) (i
       have := IsViews.cons (hdb d t (lookup_mem' hl)).1 (ih hall.2)
       simpa [viewsOf, hl] using this
 
-/-- in an acyclic session `identityM` answers the closure-keyed identity and leaves it cached -/
-theorem identityM_ok {S : Sem} {w0 : World} {s : Sess} (hsrcs : s.w.srcs = w0.srcs) (hdb : DbOK S w0 s) (hids : IdsOK S w0 s)
-    (key : Str) (sf : File) (hsf : w0.srcs.get? key = some sf)
-    (hall : (S.importsOf (S.parse sf.data)).all (fun d => (List.lookup d s.db).isSome) = true) :
-    ∃ ids' ident, identityM S s key (S.parse sf.data) = ({ s with ids := ids' }, some ident) ∧ IsId S w0.srcs key ident ∧
-      List.lookup key ids' = some ident ∧ (∀ k i, List.lookup k s.ids = some i → List.lookup k ids' = some i) ∧
-      (∀ k i, (k, i) ∈ ids' → IsId S w0.srcs k i) := by
-  unfold identityM
-  cases hl : List.lookup key s.ids with
-  | some i =>
-    exact ⟨s.ids, i, rfl, hids key i (lookup_mem' hl), hl, fun _ _ h => h, hids⟩
-  | none =>
-    dsimp only
-    rw [hsrcs, hsf]
-    obtain ⟨is, h1, h2⟩ := depIdentities_cached hdb hids _ hall
-    rw [h1]
-    dsimp only
-    have hI : IsId S w0.srcs key (S.identL (is ++ [S.hash sf.data])) := IsId.mk hsf h2
-    refine ⟨_, _, rfl, hI, lookup_append_none hl, fun _ _ h => lookup_append_some h, ?_⟩
-    intro k i hm
-    simp only [List.mem_append, List.mem_singleton, Prod.mk.injEq] at hm
-    rcases hm with hm | ⟨rfl, rfl⟩
-    · exact hids k i hm
-    · exact hI
-
-theorem preprocessWith_rest {S : Sem} (s : Sess) (key tree : Str) (views : List Str) (ident : Str) :
-    (preprocessWith S s key tree views ident).1.cyc = s.cyc ∧ (preprocessWith S s key tree views ident).1.db = s.db ∧
-      (preprocessWith S s key tree views ident).1.ids = s.ids := by
-  unfold preprocessWith
-  dsimp only
-  split
-  · split
-    · split <;> exact ⟨rfl, rfl, rfl⟩
-    · exact ⟨rfl, rfl, rfl⟩
-  · split
-    · exact ⟨rfl, rfl, rfl⟩
-    · simp only [Sess.write, Sess.evict_eq, Sess.ev, Sess.fail]
-      split <;> exact ⟨rfl, rfl, rfl⟩
-
-theorem preprocess_cyc {S : Sem} {H : Hyp S} {w0 : World} (s : Sess) (hts : TS S w0 s) (key tree : Str) (views : List Str) :
-    (preprocess S s key tree views).1.cyc = s.cyc := by
-  unfold preprocess
-  obtain ⟨ids', hf, _, _⟩ := identityM_frame H s key tree hts.2.2.2.2
-  generalize identityM S s key tree = ri at hf
-  obtain ⟨s1, o⟩ := ri
-  dsimp only at hf ⊢
-  subst hf
-  cases o with
-  | none => rfl
-  | some ident => exact (preprocessWith_rest _ key tree views ident).1
-
 /-- the persistor on a coherent cache: the world stays coherent and the returned table is the cache-free one -/
-theorem preprocessWith_sym {S : Sem} (H : Hyp S) {w0 : World} {s : Sess} (hsinv : SInv S s.w) (key : Str) (sf : File)
-    (views : List Str) (ident : Str) (hI : IsId S w0.srcs key ident) (hid : '-' ∉ ident)
-    (hT : IsTab S w0.srcs key (S.analyse key (S.parse sf.data) views)) :
-    SInv S (preprocessWith S s key (S.parse sf.data) views ident).1.w ∧
-      ∀ table, (preprocessWith S s key (S.parse sf.data) views ident).2 = some table → IsTab S w0.srcs key table := by
+theorem preprocessWith_sym {S : Sem} (H : Hyp S) {w0 : World} {s : Sess} (hsinv : SInv S (w0.parserNow S) s.w) (key tree : Str)
+    (views : List Str) (ident : Str) (hI : IsIdC S (w0.parserNow S) w0.srcs key ident) (hid : '-' ∉ ident)
+    (hT : IsTab S (w0.parserNow S) w0.srcs key (S.analyse key tree views)) :
+    SInv S (w0.parserNow S) (preprocessWith S s key tree views ident).1.w ∧
+      ∀ table, (preprocessWith S s key tree views ident).2 = some table → table = S.analyse key tree views := by
   unfold preprocessWith
   dsimp only
   split
   · rename_i f hf
     split
     · split
-      · rename_i hvalid
-        refine ⟨hsinv, fun table hr => ?_⟩
+      · rename_i table hdec
+        refine ⟨hsinv, fun table' hr => ?_⟩
         cases hr
-        obtain ⟨full, hp, hfv, hfull⟩ := hsinv key ident f hid hf
-        rw [prefix_valid_eq H hp hfv hvalid, hfull w0.srcs _ hI hT]
-        exact hT
+        obtain ⟨t0, hp, hfull⟩ := hsinv key ident f hid hf
+        rw [prefix_dec_eq H hp hdec]
+        exact hfull w0.srcs _ hI hT
       · exact ⟨hsinv, fun _ h => by simp at h⟩
-    · exact ⟨hsinv, fun table hr => by cases hr; exact hT⟩
+    · exact ⟨hsinv, fun table hr => by cases hr; rfl⟩
   · split
-    · exact ⟨hsinv, fun table hr => by cases hr; exact hT⟩
+    · exact ⟨hsinv, fun table hr => by cases hr; rfl⟩
     · refine ⟨?_, fun table hr => ?_⟩
       · exact SInv_write (SInv_evict hsinv _) _ _ _
-          (fun w m c hw => hw.put_sym H key ident _ m c hid (H.valid_analyse _ _ _) w0.srcs hI hT)
+          (fun w m c hw => hw.put_sym H key ident _ m c hid w0.srcs hI hT)
       · split at hr
         · simp at hr
-        · cases hr; exact hT
+        · cases hr; rfl
+
+end Tranp.CacheFS
+
+namespace Tranp.CacheFS
+open Tranp
+
+/-- in an acyclic session the identity computed for a module whose imports are loaded is an identity over an import-closed
+    set of current files, and it stays cached -/
+theorem identityCore_ok {S : Sem} {w0 : World} {s : Sess} (hsrcs : s.w.srcs = w0.srcs) (hdb : DbOK S w0 s) (hids : IdsOK S w0 s)
+    (key : Str) (sf : File) (hsf : w0.srcs.get? key = some sf) (hkd : key ∈ s.depd)
+    (hlk : List.lookup key s.trees = some (S.parse (w0.parserNow S) sf.data))
+    (hall : (S.importsOf (S.parse (w0.parserNow S) sf.data)).all (fun d => (List.lookup d s.db).isSome) = true)
+    (ids' : List (Str × Str)) (ident : Str) (hid : identityCore S s.w.srcs s.trees s.depd s.ids key = (ids', some ident)) :
+    IsIdC S (w0.parserNow S) w0.srcs key ident ∧ (∀ k i, (k, i) ∈ ids' → IsIdC S (w0.parserNow S) w0.srcs k i) := by
+  unfold identityCore at hid
+  cases hl : List.lookup key s.ids with
+  | some i =>
+    rw [hl] at hid
+    cases hid
+    exact ⟨hids key ident (lookup_mem' hl), hids⟩
+  | none =>
+    rw [hl] at hid
+    dsimp only at hid
+    rw [hsrcs, hsf] at hid
+    cases hc : collect S w0.srcs s.trees s.depd (s.trees.length + 2) [] key with
+    | none => rw [hc] at hid; cases hid
+    | some K =>
+      rw [hc] at hid
+      dsimp only at hid
+      cases hid
+      -- the nodes the traversal can meet: the module itself and the modules with a table
+      have hN : ∀ v, (v = key ∨ (List.lookup v s.db).isSome = true) → ∃ sv, w0.srcs.get? v = some sv ∧
+          List.lookup v s.trees = some (S.parse (w0.parserNow S) sv.data) ∧ s.depd.contains v = true ∧
+          ∀ e ∈ S.importsOf (S.parse (w0.parserNow S) sv.data), (e = key ∨ (List.lookup e s.db).isSome = true) := by
+        intro v hv
+        rcases hv with rfl | hv
+        · refine ⟨sf, hsf, hlk, by simpa using hkd, fun e he => Or.inr ?_⟩
+          exact List.all_eq_true.mp hall e he
+        · obtain ⟨t, ht⟩ := lookup_isSome_iff.mp hv
+          obtain ⟨_, c2, sv, c3, c4, c5⟩ := hdb v t ht
+          exact ⟨sv, c3, c4, by simpa using c2, fun e he => Or.inr (c5 e he)⟩
+      have hcl := collect_closure (N := fun v => v = key ∨ (List.lookup v s.db).isSome = true) hN _ key K (Or.inl rfl) hc
+      have hI : IsIdC S (w0.parserNow S) w0.srcs key (identOf S key K sf.data) := ⟨K, sf, hcl, hsf, rfl⟩
+      refine ⟨hI, ?_⟩
+      intro k i hm
+      simp only [List.mem_append, List.mem_singleton, Prod.mk.injEq] at hm
+      rcases hm with hm | ⟨rfl, rfl⟩
+      · exact hids k i hm
+      · exact hI
+
+theorem identityCore_none {S : Sem} (srcs : Dir) (trees : List (Str × Str)) (depd : List Str) (ids : List (Str × Str)) (key : Str)
+    (ids' : List (Str × Str)) (h : identityCore S srcs trees depd ids key = (ids', none)) : ids' = ids := by
+  unfold identityCore at h
+  split at h
+  · cases h
+  · split at h
+    · cases h
+    · cases h; rfl
+
+theorem IsIdC.nodash {S : Sem} (H : Hyp S) {pz : Str} {srcs : Dir} {k I : Str} (h : IsIdC S pz srcs k I) : '-' ∉ I := by
+  obtain ⟨K, own, _, _, e⟩ := h
+  rw [e]; exact H.identL_nodash _
 
 theorem preprocess_SS {S : Sem} (H : Hyp S) {w0 : World} {s : Sess} (h : SS S w0 s)
-    (key tree : Str) (hF : FreshTree S w0 key tree)
+    (key tree : Str) (hF : FreshTree S w0 key tree) (hkd : key ∈ s.depd) (hlk : List.lookup key s.trees = some tree)
     (hall : (S.importsOf tree).all (fun d => (List.lookup d s.db).isSome) = true ∨ s.cyc = true)
     {s' : Sess} {r : Option Str} (heq : preprocess S s key tree (viewsOf S s.db (S.importsOf tree)) = (s', r)) :
     SS S w0 s' ∧ ∀ table, r = some table → SS S w0 { s' with db := s'.db ++ [(key, table)] } := by
   obtain ⟨hts, hsym⟩ := h
   obtain ⟨hT1, hT2⟩ := preprocess_TS H hts key tree _ heq
-  have hcyc := preprocess_cyc (H := H) s hts key tree (viewsOf S s.db (S.importsOf tree))
+  have hcyc := preprocess_cyc (S := S) s key tree (viewsOf S s.db (S.importsOf tree))
   rw [heq] at hcyc
   dsimp only at hcyc
   by_cases hc : s.cyc = true
@@ -1090,69 +1575,91 @@ theorem preprocess_SS {S : Sem} (H : Hyp S) {w0 : World} {s : Sess} (h : SS S w0
       · exact absurd h hc
     obtain ⟨hsinv, hids, hdb⟩ := hsym hc'
     obtain ⟨sf, hsf, rfl⟩ := hF
-    obtain ⟨ids', ident, hid, hI, hlk, hmono, hids'⟩ := identityM_ok hts.2.1 hdb hids key sf hsf hall'
     have hviews := viewsOf_isViews hdb _ hall'
-    have hT : IsTab S w0.srcs key (S.analyse key (S.parse sf.data) (viewsOf S s.db (S.importsOf (S.parse sf.data)))) := IsTab.mk hsf hviews
-    have hnd : '-' ∉ ident := by
-      obtain ⟨_, is, _, _, e⟩ := hI.inv
-      rw [e]; exact H.identL_nodash _
-    unfold preprocess at heq
-    rw [hid] at heq
-    dsimp only at heq
-    have hm := preprocessWith_sym H (s := { s with ids := ids' }) hsinv key sf (viewsOf S s.db (S.importsOf (S.parse sf.data))) ident hI hnd hT
-    have hrest := preprocessWith_rest (S := S) { s with ids := ids' } key (S.parse sf.data) (viewsOf S s.db (S.importsOf (S.parse sf.data))) ident
-    rw [heq] at hm hrest
-    dsimp only at hm hrest
-    obtain ⟨_, hdbeq, hidseq⟩ := hrest
-    have hIds' : IdsOK S w0 s' := fun k i hki => hids' k i (by rw [← hidseq]; exact hki)
-    have hDb' : DbOK S w0 s' := by
-      intro k t hkt
-      obtain ⟨a, i, hi⟩ := hdb k t (by rw [← hdbeq]; exact hkt)
-      exact ⟨a, i, by rw [hidseq]; exact hmono k i hi⟩
-    refine ⟨⟨hT1, fun _ => ⟨hm.1, hIds', hDb'⟩⟩, fun table hr => ⟨hT2 table hr, fun _ => ⟨hm.1, hIds', ?_⟩⟩⟩
-    intro k t hkt
-    simp only [List.mem_append, List.mem_singleton, Prod.mk.injEq] at hkt
-    rcases hkt with hkt | ⟨rfl, rfl⟩
-    · exact hDb' k t hkt
-    · exact ⟨hm.2 t hr, ident, by rw [hidseq]; exact hlk⟩
+    have hT : IsTab S (w0.parserNow S) w0.srcs key
+        (S.analyse key (S.parse (w0.parserNow S) sf.data) (viewsOf S s.db (S.importsOf (S.parse (w0.parserNow S) sf.data)))) := IsTab.mk hsf hviews
+    unfold preprocess identityM at heq
+    cases hid : identityCore S s.w.srcs s.trees s.depd s.ids key with
+    | mk ids' o =>
+      rw [hid] at heq
+      dsimp only at heq
+      cases o with
+      | none =>
+        dsimp only at heq
+        cases heq
+        have := identityCore_none _ _ _ _ _ _ hid
+        subst this
+        exact ⟨⟨hT1, fun _ => ⟨hsinv, hids, hdb⟩⟩, fun _ hr => by cases hr⟩
+      | some ident =>
+        dsimp only at heq
+        obtain ⟨hI, hids'⟩ := identityCore_ok hts.srcs hdb hids key sf hsf hkd hlk hall' ids' ident hid
+        have hnd := hI.nodash H
+        have hm := preprocessWith_sym H (s := { s with ids := ids' }) hsinv key _ (viewsOf S s.db (S.importsOf (S.parse (w0.parserNow S) sf.data))) ident hI hnd hT
+        have hrest := preprocessWith_rest (S := S) { s with ids := ids' } key (S.parse (w0.parserNow S) sf.data) (viewsOf S s.db (S.importsOf (S.parse (w0.parserNow S) sf.data))) ident
+        rw [heq] at hm hrest
+        dsimp only at hm hrest
+        obtain ⟨_, hdbeq, hidseq, htreq, _, _, _, _, hdpeq⟩ := hrest
+        have hIds' : IdsOK S w0 s' := fun k i hki => hids' k i (by rw [← hidseq]; exact hki)
+        have hDb' : DbOK S w0 s' := by
+          intro k t hkt
+          have := hdb k t (by rw [← hdbeq]; exact hkt)
+          rw [hdpeq, htreq, hdbeq]; exact this
+        refine ⟨⟨hT1, fun _ => ⟨hm.1, hIds', hDb'⟩⟩, fun table hr => ⟨hT2 table hr, fun _ => ⟨hm.1, hIds', ?_⟩⟩⟩
+        intro k t hkt
+        simp only [List.mem_append, List.mem_singleton, Prod.mk.injEq] at hkt
+        rcases hkt with hkt | ⟨rfl, rfl⟩
+        · obtain ⟨c1, c2, sv, c3, c4, c5⟩ := hDb' k t hkt
+          exact ⟨c1, c2, sv, c3, c4, fun d hd => by
+            obtain ⟨v, hv⟩ := lookup_isSome_iff.mp (c5 d hd)
+            exact lookup_isSome_iff.mpr ⟨v, by simp [hv]⟩⟩
+        · refine ⟨?_, by rw [hdpeq]; exact hkd, sf, hsf, by rw [htreq]; exact hlk, fun d hd => ?_⟩
+          · rw [hm.2 t hr]; exact hT
+          · obtain ⟨v, hv⟩ := lookup_isSome_iff.mp (List.all_eq_true.mp hall' d hd)
+            exact lookup_isSome_iff.mpr ⟨v, by simp [hdbeq, hv]⟩
+
+theorem loadMod_SS {S : Sem} (H : Hyp S) {w0 : World} (f : Nat) (s : Sess) (key : Str) (h : SS S w0 s) (htk : TK s) :
+    SS S w0 (loadMod S f s key) :=
+  loadMod_inv' S H (SS S w0) (FreshTree S w0)
+    (fun _ e hs => ⟨hs.1.fail e, hs.2⟩)
+    (fun _ key _ _ hs heq => treeGet_SS H hs key heq)
+    (fun _ hs => ⟨⟨hs.1.inv, hs.1.srcs, hs.1.gm, hs.1.cfg, hs.1.parser, hs.1.trees, hs.1.ids⟩, fun h => by cases h⟩)
+    (fun s key hs => ⟨⟨hs.1.inv, hs.1.srcs, hs.1.gm, hs.1.cfg, hs.1.parser, hs.1.trees, hs.1.ids⟩, fun hc => by
+      obtain ⟨a, b, c⟩ := hs.2 hc
+      refine ⟨a, b, fun k t hkt => ?_⟩
+      obtain ⟨c1, c2, rest⟩ := c k t hkt
+      exact ⟨c1, by simp [c2], rest⟩⟩)
+    (fun _ key tree _ _ hs hF hkd hlk hall heq => preprocess_SS H hs key tree hF hkd hlk hall heq)
+    f s key h htk
 
 end Tranp.CacheFS
-
 namespace Tranp.CacheFS
 open Tranp
 
-theorem loadMod_SS {S : Sem} (H : Hyp S) {w0 : World} (f : Nat) (s : Sess) (key : Str) (h : SS S w0 s) : SS S w0 (loadMod S f s key) :=
-  loadMod_inv S (SS S w0) (FreshTree S w0)
-    (fun _ _ hs => hs)
-    (fun _ key _ _ hs heq => treeGet_SS H hs key heq)
-    (fun _ hs => ⟨hs.1, fun h => by cases h⟩)
-    (fun _ key tree _ _ hs hF hall heq => preprocess_SS H hs key tree hF hall heq)
-    f s key h
-
-theorem runTargets_SS {S : Sem} (H : Hyp S) {w0 : World} (targets : List Str) (s : Sess) (h : SS S w0 s) :
+theorem runTargets_SS {S : Sem} (H : Hyp S) {w0 : World} (targets : List Str) (s : Sess) (h : SS S w0 s) (htk : TK s) :
     SS S w0 (runTargets S s targets) := by
   unfold runTargets
-  apply foldl_inv (SS S w0) _ _ _ _ h
+  refine (foldl_inv (fun s => SS S w0 s ∧ TK s) _ ?_ _ _ ⟨h, htk⟩).1
   intro s key hs
   split
   · exact hs
-  · have h1 := loadMod_SS H (fuelOf s.w) s key hs
+  · have h1 := loadMod_SS H (fuelOf s.w) s key hs.1 hs.2
+    have h2 := loadMod_TK H (fuelOf s.w) s key hs.2
     dsimp only
-    generalize loadMod S (fuelOf s.w) s key = s1 at h1
+    generalize loadMod S (fuelOf s.w) s key = s1 at h1 h2
     split
-    · exact h1
+    · exact ⟨h1, h2⟩
     · split
-      · obtain ⟨⟨a, b, c, d⟩, e⟩ := h1
-        exact ⟨⟨⟨a.keys, a.fresh, a.tree⟩, b, c, d⟩, e⟩
-      · exact h1
+      · obtain ⟨a, e⟩ := h1
+        exact ⟨⟨⟨⟨a.inv.keys, a.inv.fresh, a.inv.gfresh, a.inv.tree, a.inv.parser⟩, a.srcs, a.gm, a.cfg, a.parser, a.trees, a.ids⟩, e⟩, h2⟩
+      · exact ⟨h1, h2⟩
 
-/-- world-level invariant of both JSON layers -/
-def WS (S : Sem) (w : World) : Prop := TInv S w ∧ SInv S w
+/-- world-level invariant of the cache layers (symbol files with respect to the parser of the current setting) -/
+def WS (S : Sem) (w : World) : Prop := TInv S w ∧ SInv S (w.parserNow S) w
 
 theorem run_SS {S : Sem} (H : Hyp S) (w : World) (force : Bool) (h : WS S w) : SS S w (run S w force) := by
   unfold run
-  exact runTargets_SS H _ _ ⟨⟨h.1, rfl, rfl, fun _ _ hkt => by simp at hkt, fun _ _ hki => by simp at hki⟩,
-    fun _ => ⟨h.2, fun _ _ hki => by simp at hki, fun _ _ hkt => by simp at hkt⟩⟩
+  exact runTargets_SS H _ _ ⟨TS.start w h.1, fun _ => ⟨h.2, fun _ _ hki => by simp at hki, fun _ _ hkt => by simp at hkt⟩⟩
+    (fun _ _ hl => by simp [List.lookup] at hl)
 
 def OpAcyclic (S : Sem) (w : World) : Op → Prop
   | .run f => (run S w f).cyc = false
@@ -1163,12 +1670,22 @@ def Acyclic (S : Sem) : World → List Op → Prop
   | _, [] => True
   | w, op :: rest => OpAcyclic S w op ∧ Acyclic S (step S w op) rest
 
-theorem step_WS {S : Sem} (H : Hyp S) (w : World) (op : Op) (hop : OpOK op) (hac : OpAcyclic S w op) (h : WS S w) :
+/-- the grammar is not changed (the identity of a symbol file does not cover the grammar) -/
+def NoGrammar : Op → Prop
+  | .grammar _ => False
+  | _ => True
+
+theorem step_WS {S : Sem} (H : Hyp S) (w : World) (op : Op) (hop : OpOK op) (hng : NoGrammar op) (hac : OpAcyclic S w op) (h : WS S w) :
     WS S (step S w op) := by
   refine ⟨step_TInv H w op hop h.1, ?_⟩
   cases op with
   | edit k src => exact h.2
-  | run force => exact ((run_SS H w force h).2 hac).1
+  | run force =>
+    have hr := run_SS H w force h
+    have e : (run S w force).w.parserNow S = w.parserNow S := hr.1.parserNow_eq
+    show SInv S ((run S w force).w.parserNow S) (run S w force).w
+    rw [e]
+    exact (hr.2 hac).1
   | clear => intro k ident f _ hget; simp [step, World.clearCache, Dir.get?] at hget
   | delete p => exact h.2.erase p
   | trunc p k =>
@@ -1177,16 +1694,18 @@ theorem step_WS {S : Sem} (H : Hyp S) (w : World) (op : Op) (hop : OpOK op) (hac
     · rename_i f hf; exact h.2.trunc p f hf k
     · exact h.2
   | enable b => exact h.2
+  | grammar path => exact absurd hng (by simp [NoGrammar])
 
-theorem exec_WS {S : Sem} (H : Hyp S) (w : World) (hist : List Op) (hok : ∀ op ∈ hist, OpOK op) (hac : Acyclic S w hist)
-    (h : WS S w) : WS S (exec S w hist) := by
+theorem exec_WS {S : Sem} (H : Hyp S) (w : World) (hist : List Op) (hok : ∀ op ∈ hist, OpOK op) (hng : ∀ op ∈ hist, NoGrammar op)
+    (hac : Acyclic S w hist) (h : WS S w) : WS S (exec S w hist) := by
   induction hist generalizing w with
   | nil => exact h
   | cons op hist ih =>
-    exact ih (step S w op) (fun o ho => hok o (by simp [ho])) hac.2 (step_WS H w op (hok op (by simp)) hac.1 h)
+    exact ih (step S w op) (fun o ho => hok o (by simp [ho])) (fun o ho => hng o (by simp [ho])) hac.2
+      (step_WS H w op (hok op (by simp)) (hng op (by simp)) hac.1 h)
 
-theorem WS.init {S : Sem} (w : World) (hc : w.cache = []) (hs : w.srcs = []) : WS S w :=
-  ⟨TInv.init w hc hs, fun k ident f _ hf => by simp [hc, Dir.get?] at hf⟩
+theorem WS.init {S : Sem} (w : World) (hc : w.cache = []) (hs : w.srcs = []) (hg : w.grammarMtime < w.clock) : WS S w :=
+  ⟨TInv.init w hc hs hg, fun k ident f _ hf => by simp [hc, Dir.get?] at hf⟩
 
 /-! ### caching disabled -/
 
@@ -1200,76 +1719,35 @@ theorem cacheGet_quiet {S : Sem} {c0 : Dir} {s : Sess} (h : Quiet c0 s) (dir key
 
 theorem treeGet_quiet {S : Sem} {c0 : Dir} {s : Sess} (h : Quiet c0 s) (key : Str) : Quiet c0 (treeGet S s key).1 := by
   unfold treeGet
-  have h1 : Quiet c0 (if s.parserUp then s else
-      match cacheGet S s [] parserKey (S.parserIdent s.w.grammarMtime) binExt (S.parserBlob s.w.grammarMtime) true with
-      | (s', r) => if r.isSome then { s' with parserUp := true } else s') := by
+  have h1 : Quiet c0 (parserGet S s).1 := by
+    unfold parserGet
     split
     · exact h
     · rw [cacheGet_quiet h]; exact h
-  dsimp only
-  generalize (if s.parserUp then s else
-      match cacheGet S s [] parserKey (S.parserIdent s.w.grammarMtime) binExt (S.parserBlob s.w.grammarMtime) true with
-      | (s', r) => if r.isSome then { s' with parserUp := true } else s') = s1 at h1
-  split
-  · exact h1
-  · split
+  generalize parserGet S s = rp at h1
+  obtain ⟨s1, op⟩ := rp
+  cases op with
+  | none => exact h1
+  | some pz =>
+    dsimp only at h1 ⊢
+    split
     · exact h1
     · rw [cacheGet_quiet h1]; exact h1
 
-theorem identityM_quiet {S : Sem} {c0 : Dir} (s : Sess) (key tree : Str) (h : Quiet c0 s) : Quiet c0 (identityM S s key tree).1 := by
-  have frame : ∀ (s : Sess) d, Quiet c0 s → Quiet c0 (depIdentity S s d).1 := by
-    intro s d hs
-    unfold depIdentity
-    split
-    · exact hs
-    · split
-      · split
-        · exact hs
-        · exact hs
-      · exact hs
-  have frames : ∀ (ds : List Str) (s : Sess), Quiet c0 s → Quiet c0 (depIdentities S s ds).1 := by
-    intro ds
-    induction ds with
-    | nil => intro s hs; exact hs
-    | cons d ds ih =>
-      intro s hs
-      unfold depIdentities
-      have h1 := frame s d hs
-      generalize depIdentity S s d = r at h1
-      obtain ⟨s1, o⟩ := r
-      cases o with
-      | none => exact h1
-      | some i =>
-        dsimp only at h1 ⊢
-        have h2 := ih s1 h1
-        generalize depIdentities S s1 ds = r2 at h2
-        obtain ⟨s2, o2⟩ := r2
-        cases o2 <;> exact h2
-  unfold identityM
-  split
-  · exact h
-  · split
-    · exact h
-    · have h2 := frames (S.importsOf tree) s h
-      generalize depIdentities S s (S.importsOf tree) = r at h2
-      obtain ⟨s1, o⟩ := r
-      cases o <;> exact h2
-
 theorem preprocess_quiet {S : Sem} {c0 : Dir} {s : Sess} (h : Quiet c0 s) (key tree : Str) (views : List Str) :
     Quiet c0 (preprocess S s key tree views).1 := by
-  unfold preprocess
-  have h1 := identityM_quiet (S := S) s key tree h
-  generalize identityM S s key tree = r at h1
-  obtain ⟨s1, o⟩ := r
+  unfold preprocess identityM
+  generalize identityCore S s.w.srcs s.trees s.depd s.ids key = r
+  obtain ⟨ids', o⟩ := r
   cases o with
-  | none => exact h1
+  | none => exact h
   | some ident =>
-    dsimp only at h1 ⊢
+    dsimp only
     unfold preprocessWith
     dsimp only
     split
-    · simp only [h1.2.2, Bool.false_eq_true, ↓reduceIte]; exact h1
-    · simp only [h1.2.2, Bool.not_false, ↓reduceIte]; exact h1
+    · simp only [h.2.2, Bool.false_eq_true, ↓reduceIte]; exact h
+    · simp only [h.2.2, Bool.not_false, ↓reduceIte]; exact h
 
 theorem loadMod_quiet {S : Sem} {c0 : Dir} (f : Nat) (s : Sess) (key : Str) (h : Quiet c0 s) : Quiet c0 (loadMod S f s key) :=
   loadMod_inv S (Quiet c0) (fun _ _ => True)
@@ -1279,7 +1757,8 @@ theorem loadMod_quiet {S : Sem} {c0 : Dir} (f : Nat) (s : Sess) (key : Str) (h :
       rw [heq] at this
       exact ⟨this, fun _ _ => ⟨trivial, this⟩⟩)
     (fun _ hs => hs)
-    (fun s key tree s' r hs _ _ heq => by
+    (fun _ _ hs => hs)
+    (fun s key tree s' r hs _ _ _ heq => by
       have := preprocess_quiet (S := S) hs key tree (viewsOf S s.db (S.importsOf tree))
       rw [heq] at this
       exact ⟨this, fun _ _ => this⟩)
@@ -1299,31 +1778,5 @@ theorem run_quiet {S : Sem} (w : World) (force : Bool) (he : w.enabled = false) 
     · split
       · exact h1
       · exact h1
-
-end Tranp.CacheFS
-
-namespace Tranp.CacheFS
-open Tranp
-
-/-! ### the closure-keyed identity covers the symbols -/
-
-theorem mid_covers {S : Sem} (H : Hyp S) (src src' : Str → Str) (f : Nat) (k : Str) (h : mid S src f k = mid S src' f k) :
-    symPure S src f k = symPure S src' f k := by
-  induction f generalizing k with
-  | zero => rfl
-  | succ f ih =>
-    simp only [mid] at h
-    have h1 := H.identL_inj _ _ h
-    have hlen : ((S.importsOf (S.parse (src k))).map (mid S src f) ++ [S.hash (src k)]).length =
-        ((S.importsOf (S.parse (src' k))).map (mid S src' f) ++ [S.hash (src' k)]).length := congrArg List.length h1
-    obtain ⟨h2, h3⟩ := List.append_inj h1 (by simpa using hlen)
-    have hs : src k = src' k := H.hash_inj _ _ (by simpa using h3)
-    simp only [symPure, ← hs]
-    rw [← hs] at h2
-    congr 1
-    apply List.map_congr_left
-    intro d hd
-    have : mid S src f d = mid S src' f d := List.map_inj_left.mp h2 d hd
-    rw [ih d this]
 
 end Tranp.CacheFS
